@@ -1,10 +1,14 @@
 (* compile_correct: running the decision tree [compile L] on the encoding of a well-typed value of the
-   layout L returns that value and leaves exactly what followed the encoding.
+   layout L returns that value and leaves exactly what followed the encoding.  All cells are ordinary.
+   The statement is relative to a choice function ch (which alternative of an Either field the encoder
+   uses: for every ch) and to a context cx (what the value knows of the bits and references following it:
+   an inline Any body IS that tail, a snapshot attribute IS the cell parsed); ctx_ok cx tb tr says that the
+   actual tail is the known one.
    Plus the computational checks impl_<T> = compile spec_<T> tying the generated trees of Gen/TlbImpl.v
    (what the library does) to the layouts of Spec/BlockTlb.v (what block.tlb says). *)
 From Coq Require Import NArith ZArith List Bool String Lia ZifyBool ZifyNat ZifyN.
 From PTQ Require Import Base.Result Base.Bytes Base.Bits Model.Cell Model.Builder Model.Hashmap Model.Dtree
-  Spec.TlbPrim Spec.TlbVal Spec.Hashmap Proofs.BuilderRT Proofs.HmParse Proofs.HmRoundtrip Spec.Tlb.
+  Spec.TlbPrim Spec.TlbVal Spec.Hashmap Proofs.BuilderRT Proofs.HmLabel Proofs.HmParse Proofs.HmRoundtrip Spec.Tlb.
 Import ListNotations.
 Local Open Scope nat_scope.
 
@@ -159,6 +163,85 @@ Section Steps.
     replace (S f - 1) with f in * by lia. cbn [run]. rewrite Hget. cbn [bind]. rewrite Hload.
     cbn [bind]. rewrite Hmap. reflexivity.
   Qed.
+
+  Lemma run_tocell fuel sid k ss env w ts :
+    1 <= fuel -> get_slice ss sid = Ok ts ->
+    run tbl fuel (DOp sid OToCell k) ss env w
+    = run tbl (fuel - 1) k ss (env ++ [PCell (Cell (ts_ty ts) (s_bits (ts_s ts)) (s_refs (ts_s ts)))]) (w ++ [1]).
+  Proof.
+    intros Hfuel Hget. destruct fuel as [|f]; [lia|].
+    replace (S f - 1) with f by lia. cbn [run]. rewrite Hget. reflexivity.
+  Qed.
+
+  Lemma run_peek fuel sid n k ss env w ts :
+    1 <= fuel -> get_slice ss sid = Ok ts ->
+    run tbl fuel (DOp sid (OPeekBits n) k) ss env w
+    = run tbl (fuel - 1) k ss (env ++ [PBits (s_preload_bits (ts_s ts) n)]) (w ++ [n]).
+  Proof.
+    intros Hfuel Hget. destruct fuel as [|f]; [lia|].
+    replace (S f - 1) with f by lia. cbn [run]. rewrite Hget. reflexivity.
+  Qed.
+
+  Lemma run_ifspecial_ord fuel sid t0 t1 ss env w s :
+    1 <= fuel -> get_slice ss sid = Ok (mkTS ty_ordinary s) ->
+    run tbl fuel (DIfSpecial sid t0 t1) ss env w = run tbl (fuel - 1) t0 ss env w.
+  Proof.
+    intros Hfuel Hget. destruct fuel as [|f]; [lia|].
+    replace (S f - 1) with f by lia. cbn [run]. rewrite Hget. reflexivity.
+  Qed.
+
+  Lemma run_hashmap fuel sid n vt k ss env w ts leaves kvs3 :
+    1 <= fuel -> get_slice ss sid = Ok ts ->
+    hashmap_parse (ts_ty ts) (ts_s ts) (Z.of_nat n) = Ok (Some leaves) ->
+    mapM (fun '(key, ls) =>
+            rmap (fun '(v, ss1) => (Z.of_N (of_bits key), v, ss1))
+                 (run tbl (fuel - 1) vt [(0, mkTS ty_ordinary ls)] [] [])) leaves = Ok kvs3 ->
+    run tbl fuel (DOp sid (OHashmap n vt) k) ss env w
+    = run tbl (fuel - 1) k
+        (set_slice ss sid (mkTS (ts_ty ts)
+           (match deserialize_hml (ts_s ts) (Z.of_nat n) with
+            | Ok (l, _, s1) =>
+                if (Z.of_nat n - Z.of_nat l =? 0)%Z then
+                  match kvs3 with
+                  | [(_, _, ss1)] => match get_slice ss1 0 with Ok t1 => ts_s t1 | Err _ => s1 end
+                  | _ => s1
+                  end
+                else mkS (s_bits s1) (skipn 2 (s_refs s1))
+            | Err _ => ts_s ts
+            end)))
+        (env ++ [PDict (map (fun '(k, v, _) => (k, v)) kvs3)]) (w ++ [1]).
+  Proof.
+    intros Hfuel Hget Hparse Hmap. destruct fuel as [|f]; [lia|].
+    replace (S f - 1) with f in * by lia. cbn [run]. rewrite Hget. cbn [bind]. rewrite Hparse.
+    cbn [bind]. rewrite Hmap. reflexivity.
+  Qed.
+
+  (* one node of an augmented dictionary, as [run] visits it *)
+  Definition aug_visit_fn (f : nat) (xt yt : dtree) (nd : aug_node) : result aug_visit :=
+    match nd with
+    | ANLeaf key ls =>
+        bind (run tbl f yt [(0, mkTS ty_ordinary ls)] [] []) (fun '(ex, ss1) =>
+        bind (get_slice ss1 0) (fun t1 =>
+        bind (run tbl f xt [(0, t1)] [] []) (fun '(v, ss2) =>
+        bind (get_slice ss2 0) (fun t2 => Ok (Some (Z.of_N (of_bits key), v), ex, ts_s t2)))))
+    | ANFork s3 =>
+        bind (run tbl f yt [(0, mkTS ty_ordinary s3)] [] []) (fun '(ex, ss1) =>
+        bind (get_slice ss1 0) (fun t1 => Ok (None, ex, ts_s t1)))
+    end.
+
+  Lemma run_augdict fuel sid n xt yt k ss env w s nodes rs :
+    1 <= fuel -> get_slice ss sid = Ok (mkTS ty_ordinary s) ->
+    aug_nodes parse_fuel ty_ordinary s (Z.of_nat n) [] = Ok nodes ->
+    mapM (aug_visit_fn (fuel - 1) xt yt) nodes = Ok rs ->
+    run tbl fuel (DOp sid (OAugDict n xt yt) k) ss env w
+    = run tbl (fuel - 1) k (set_slice ss sid (mkTS ty_ordinary (snd (aug_result s rs))))
+        (env ++ [fst (aug_result s rs)]) (w ++ [1]).
+  Proof.
+    intros Hfuel Hget Hnodes Hmap. destruct fuel as [|f]; [lia|].
+    replace (S f - 1) with f in * by lia. cbn [run]. rewrite Hget. cbn [bind ts_ty ts_s].
+    change (negb (ty_ordinary =? ty_ordinary)%Z) with false. cbv iota. rewrite Hnodes. cbn [bind].
+    unfold aug_visit_fn in Hmap. rewrite Hmap. reflexivity.
+  Qed.
 End Steps.
 
 (* ------------------------------------------------------------------------------------------------ *)
@@ -272,6 +355,236 @@ Proof.
 Qed.
 
 
+
+(* the canonical tree is a leaf or a fork (never a pruned cell) *)
+Lemma canon_shape e n :
+  (exists l k v, canon_kinds (canon_vtree e) n = VLeaf l k v) \/
+  (exists l k a b, canon_kinds (canon_vtree e) n = VFork l k a b).
+Proof. destruct e as [l [v|a b]]; cbn [canon_vtree canon_kinds]; [left|right]; eauto. Qed.
+
+(* dict_tree: the checks of the encoder, and what they give *)
+Lemma dict_tree_ok n src t : dict_tree n src = Ok t ->
+  exists e, s_patricia (S n) src = Some e /\ t = canon_kinds (canon_vtree e) n /\ vtree_ok t n = true.
+Proof.
+  unfold dict_tree. destruct (s_patricia (S n) src) as [e|] eqn:Hpat; [|discriminate]. cbv zeta.
+  destruct (vtree_ok (canon_kinds (canon_vtree e) n) n) eqn:Hok; [|discriminate].
+  intros H. inversion H; subst t. exists e. repeat split. exact Hok.
+Qed.
+
+(* ---- Hashmap n X inline: the root edge is read from the slice itself, which goes on after it ---- *)
+Lemma hashmap_inline_leaf l k v n tb tr : 1 <= n <= 1023 -> vtree_ok (VLeaf l k v) n = true ->
+  deserialize_hml (mkS ((s_label_bits k l n ++ fst v) ++ tb) (snd v ++ tr)) (Z.of_nat n)
+  = Ok (List.length l, l, mkS (fst v ++ tb) (snd v ++ tr))
+  /\ (Z.of_nat n - Z.of_nat (List.length l) =? 0)%Z = true
+  /\ hashmap_parse ty_ordinary (mkS ((s_label_bits k l n ++ fst v) ++ tb) (snd v ++ tr)) (Z.of_nat n)
+     = Ok (Some [(l, mkS (fst v ++ tb) (snd v ++ tr))]).
+Proof.
+  intros Hn Hok. cbn [vtree_ok] in Hok. apply andb_true_iff in Hok. destruct Hok as [Hok Hrefs].
+  apply andb_true_iff in Hok. destruct Hok as [Hok Hcap].
+  apply andb_true_iff in Hok. destruct Hok as [Hlen Hkind]. apply Nat.eqb_eq in Hlen.
+  assert (Hl : deserialize_hml (mkS ((s_label_bits k l n ++ fst v) ++ tb) (snd v ++ tr)) (Z.of_nat n)
+               = Ok (List.length l, l, mkS (fst v ++ tb) (snd v ++ tr))).
+  { rewrite <- app_assoc. apply read_label_spec; [lia|exact Hkind]. }
+  split; [exact Hl|]. split; [lia|].
+  unfold hashmap_parse. rewrite hm_ord_test. unfold parse_hashmap, parse_fuel.
+  rewrite hm_parse_edge_S. rewrite Hl. cbn [bind].
+  replace (Z.of_nat n <? Z.of_nat (List.length l))%Z with false by lia. rewrite hm_ord_test.
+  replace (Z.of_nat n - Z.of_nat (List.length l) =? 0)%Z with true by lia. cbn [app].
+  destruct l as [|x l']; [cbn [List.length] in Hlen; lia|]. reflexivity.
+Qed.
+
+Lemma hashmap_inline_fork l k a b n tb tr : 1 <= n <= 1023 -> vtree_ok (VFork l k a b) n = true ->
+  let m1 := n - List.length l - 1 in
+  deserialize_hml (mkS (s_label_bits k l n ++ tb) ([cell_of a m1; cell_of b m1] ++ tr)) (Z.of_nat n)
+  = Ok (List.length l, l, mkS tb ([cell_of a m1; cell_of b m1] ++ tr))
+  /\ (Z.of_nat n - Z.of_nat (List.length l) =? 0)%Z = false
+  /\ hashmap_parse ty_ordinary (mkS (s_label_bits k l n ++ tb) ([cell_of a m1; cell_of b m1] ++ tr)) (Z.of_nat n)
+     = Ok (Some (leaves_of (VFork l k a b) [])).
+Proof.
+  intros Hn Hok m1. cbn [vtree_ok] in Hok. apply andb_true_iff in Hok. destruct Hok as [Hok Hokb].
+  apply andb_true_iff in Hok. destruct Hok as [Hok Hoka].
+  apply andb_true_iff in Hok. destruct Hok as [Hok Hcap].
+  apply andb_true_iff in Hok. destruct Hok as [Hlen Hkind]. apply Nat.ltb_lt in Hlen.
+  fold m1 in Hoka, Hokb.
+  assert (Hl : deserialize_hml (mkS (s_label_bits k l n ++ tb) ([cell_of a m1; cell_of b m1] ++ tr)) (Z.of_nat n)
+               = Ok (List.length l, l, mkS tb ([cell_of a m1; cell_of b m1] ++ tr))).
+  { apply read_label_spec; [lia|exact Hkind]. }
+  split; [exact Hl|]. split; [lia|].
+  unfold hashmap_parse. rewrite hm_ord_test. unfold parse_hashmap.
+  pose proof hm_parse_fuel_big as Hbig. destruct parse_fuel as [|f] eqn:Hpf; [lia|].
+  rewrite hm_parse_edge_S. rewrite Hl. cbn [bind].
+  replace (Z.of_nat n <? Z.of_nat (List.length l))%Z with false by lia. rewrite hm_ord_test.
+  replace (Z.of_nat n - Z.of_nat (List.length l) =? 0)%Z with false by lia.
+  replace (Z.of_nat n - Z.of_nat (List.length l) - 1)%Z with (Z.of_nat m1) by lia.
+  assert (Hf1 : m1 < f) by lia.
+  pose proof (hm_parse_edge_valid a f m1 (([] ++ l) ++ [false]) Hf1
+                (or_introl (fun E => app_cons_not_nil _ _ _ (eq_sym E))) Hoka) as Ha.
+  pose proof (hm_parse_edge_valid b f m1 (([] ++ l) ++ [true]) Hf1
+                (or_introl (fun E => app_cons_not_nil _ _ _ (eq_sym E))) Hokb) as Hb.
+  unfold s_load_ref at 1. cbn [s_refs s_bits bind app].
+  destruct (cell_of a m1) as [ty0 bits0 refs0].
+  cbn [app] in Ha. rewrite Ha. cbn [bind].
+  unfold s_load_ref. cbn [s_refs s_bits bind].
+  destruct (cell_of b m1) as [ty1 bits1 refs1].
+  cbn [app] in Hb. rewrite Hb. cbn [bind rmap leaves_of app]. reflexivity.
+Qed.
+
+(* ---- a dictionary kept as the list of its values: the keys are 0, 1, 2, ... ---- *)
+Lemma index_kvs_snd : forall l i, map snd (index_kvs i l) = l.
+Proof. induction l as [|x r IH]; intros i; cbn [index_kvs map snd]; [reflexivity|]. rewrite IH. reflexivity. Qed.
+
+Lemma index_kvs_fst : forall l i, map fst (index_kvs i l) = map Z.of_nat (seq i (List.length l)).
+Proof.
+  induction l as [|x r IH]; intros i; cbn [index_kvs map fst List.length seq]; [reflexivity|].
+  rewrite IH. reflexivity.
+Qed.
+
+Lemma seq_ascending : forall k i, ascending (map Z.of_nat (seq i k)) = true.
+Proof.
+  induction k as [|k IH]; intros i; [reflexivity|]. cbn [seq map].
+  destruct k as [|k']; [reflexivity|]. specialize (IH (S i)). cbn [seq map] in IH |- *.
+  cbn [ascending]. cbn [ascending] in IH. rewrite IH.
+  replace (Z.of_nat i <? Z.of_nat (S i))%Z with true by lia. reflexivity.
+Qed.
+
+Lemma index_kvs_Forall (P : Z * pv -> Prop) : forall l i,
+  (forall j x, i <= j < i + List.length l -> In x l -> P (Z.of_nat j, x)) -> Forall P (index_kvs i l).
+Proof.
+  induction l as [|x r IH]; intros i H; cbn [index_kvs]; [constructor|].
+  constructor.
+  - apply H; [cbn [List.length]; lia|left; reflexivity].
+  - apply IH. intros j y Hj Hy. apply H; [cbn [List.length]; lia|right; exact Hy].
+Qed.
+
+Lemma all_of_In {A} (P : A -> Prop) l x : all_of P l -> In x l -> P x.
+Proof. intros H. apply all_of_Forall in H. rewrite Forall_forall in H. apply H. Qed.
+
+(* ---- HashmapAug: the nodes of the encoded tree, in visiting order ---- *)
+(* a node as the schema sees it: the pair of a leaf (key, encoded value) if it is one, and its encoded extra *)
+Definition aug_ev := (option (list bool * payload) * payload)%type.
+Fixpoint aug_sem (e : hedge) (p : list bool) (fx : list payload) : option (list aug_ev * list payload) :=
+  match e with
+  | HEdge l (HLeaf v) =>
+      match fx with x :: fx' => Some ([(Some (p ++ l, v), x)], fx') | [] => None end
+  | HEdge l (HFork a b) =>
+      match aug_sem a (p ++ l ++ [false]) fx with
+      | Some (ea, fx1) =>
+          match aug_sem b (p ++ l ++ [true]) fx1 with
+          | Some (eb, fx2) =>
+              match fx2 with x :: fx3 => Some (ea ++ eb ++ [(None, x)], fx3) | [] => None end
+          | None => None
+          end
+      | None => None
+      end
+  end.
+(* the slice its extra (and value) are read from; tb/tr: what follows in the cell (the root only) *)
+Definition ev_slice (ev : aug_ev) (tb : list bool) (tr : list cell) : slice :=
+  match ev with
+  | (Some (_, v), x) => mkS (fst x ++ fst v ++ tb) (snd x ++ snd v ++ tr)
+  | (None, x) => mkS (fst x ++ tb) (snd x ++ tr)
+  end.
+Definition ev_node (ev : aug_ev) (tb : list bool) (tr : list cell) : aug_node :=
+  match fst ev with
+  | Some (key, _) => ANLeaf key (ev_slice ev tb tr)
+  | None => ANFork (ev_slice ev tb tr)
+  end.
+Definition ev_leaves (evs : list aug_ev) : kvs :=
+  flat_map (fun ev => match fst ev with Some kv => [kv] | None => [] end) evs.
+
+Lemma aug_sem_extras : forall e p fx evs fx', aug_sem e p fx = Some (evs, fx') -> map snd evs ++ fx' = fx.
+Proof.
+  induction e as [l v|l a b IHa IHb] using rt_hedge_ind; intros p fx evs fx' H; cbn [aug_sem] in H.
+  - destruct fx as [|x fx0]; [discriminate|]. inversion H; subst. reflexivity.
+  - destruct (aug_sem a (p ++ l ++ [false]) fx) as [[ea fx1]|] eqn:Ha; [|discriminate].
+    destruct (aug_sem b (p ++ l ++ [true]) fx1) as [[eb fx2]|] eqn:Hb; [|discriminate].
+    destruct fx2 as [|x fx3]; [discriminate|]. inversion H; subst.
+    rewrite !map_app. cbn [map snd]. rewrite <- !app_assoc. cbn [app].
+    rewrite <- (IHa _ _ _ _ Ha), <- (IHb _ _ _ _ Hb). rewrite <- ?app_assoc. reflexivity.
+Qed.
+
+Lemma ev_leaves_app a b : ev_leaves (a ++ b) = ev_leaves a ++ ev_leaves b.
+Proof. unfold ev_leaves. apply flat_map_app. Qed.
+
+Lemma aug_sem_leaves : forall e p fx evs fx', aug_sem e p fx = Some (evs, fx') -> ev_leaves evs = rt_edge_leaves e p.
+Proof.
+  induction e as [l v|l a b IHa IHb] using rt_hedge_ind; intros p fx evs fx' H; cbn [aug_sem] in H.
+  - destruct fx as [|x fx0]; [discriminate|]. inversion H; subst. reflexivity.
+  - destruct (aug_sem a (p ++ l ++ [false]) fx) as [[ea fx1]|] eqn:Ha; [|discriminate].
+    destruct (aug_sem b (p ++ l ++ [true]) fx1) as [[eb fx2]|] eqn:Hb; [|discriminate].
+    destruct fx2 as [|x fx3]; [discriminate|]. inversion H; subst.
+    rewrite !ev_leaves_app. rewrite (IHa _ _ _ _ Ha), (IHb _ _ _ _ Hb).
+    cbn [rt_edge_leaves]. unfold ev_leaves at 1. cbn [flat_map fst app]. rewrite app_nil_r. reflexivity.
+Qed.
+
+(* the cells built by the encoder are walked by aug_nodes node after node; what follows the root's cell content
+   (tb, tr) is seen by the last node only *)
+Lemma aug_nodes_cell : forall e fuel m p fx c fx' tb tr,
+  rt_edge_wf e m -> m < fuel -> aug_cell e m fx = Some (c, fx') ->
+  exists evs0 ev,
+    aug_sem e p fx = Some (evs0 ++ [ev], fx') /\
+    match c with
+    | Cell ty b r =>
+        ty = ty_ordinary /\
+        aug_nodes fuel ty (mkS (b ++ tb) (r ++ tr)) (Z.of_nat m) p
+        = Ok (map (fun e0 => ev_node e0 [] []) evs0 ++ [ev_node ev tb tr])
+    end.
+Proof.
+  induction e as [l v|l a b IHa IHb] using rt_hedge_ind; intros fuel m p fx c fx' tb tr Hwf Hfuel Hc;
+    (destruct fuel as [|f]; [lia|]); cbn [aug_cell] in Hc; cbn [rt_edge_wf] in Hwf.
+  - destruct fx as [|x fx0]; [discriminate|]. cbv zeta in Hc.
+    destruct (cell_fits _ _); [|discriminate]. inversion Hc; subst c fx'. clear Hc.
+    exists [], (Some (p ++ l, v), x). split; [reflexivity|]. split; [reflexivity|].
+    cbn [aug_nodes]. rewrite hm_ord_test. rewrite <- !app_assoc.
+    rewrite read_label_spec by (lia || apply rt_kind_ok). cbn [bind].
+    replace (Z.of_nat m <? Z.of_nat (List.length l))%Z with false by lia.
+    replace (Z.of_nat m - Z.of_nat (List.length l) =? 0)%Z with true by lia. reflexivity.
+  - destruct Hwf as (Hlen & Hwa & Hwb). set (m1 := m - List.length l - 1) in *.
+    destruct (aug_cell a m1 fx) as [[ca fx1]|] eqn:Ha; [|discriminate].
+    destruct (aug_cell b m1 fx1) as [[cb fx2]|] eqn:Hb; [|discriminate].
+    destruct fx2 as [|x fx3]; [discriminate|]. cbv zeta in Hc.
+    destruct (cell_fits _ _); [|discriminate]. inversion Hc; subst c fx'. clear Hc.
+    destruct (IHa f m1 (p ++ l ++ [false]) fx ca fx1 [] [] Hwa ltac:(lia) Ha) as (ea0 & eva & Hsa & Hna).
+    destruct (IHb f m1 (p ++ l ++ [true]) fx1 cb (x :: fx3) [] [] Hwb ltac:(lia) Hb) as (eb0 & evb & Hsb & Hnb).
+    exists ((ea0 ++ [eva]) ++ (eb0 ++ [evb])), (None, x). split.
+    + cbn [aug_sem]. rewrite Hsa, Hsb. rewrite <- !app_assoc. reflexivity.
+    + split; [reflexivity|].
+      cbn [aug_nodes]. rewrite hm_ord_test. rewrite <- !app_assoc.
+      rewrite read_label_spec by (lia || apply rt_kind_ok). cbn [bind].
+      replace (Z.of_nat m <? Z.of_nat (List.length l))%Z with false by lia.
+      replace (Z.of_nat m - Z.of_nat (List.length l) =? 0)%Z with false by lia.
+      replace (Z.of_nat m - Z.of_nat (List.length l) - 1)%Z with (Z.of_nat m1) by lia.
+      unfold s_load_ref at 1. cbn [s_refs s_bits bind app].
+      destruct ca as [tya ba ra]. destruct Hna as [-> Hna]. rewrite !app_nil_r in Hna.
+      rewrite <- ?app_assoc in Hna. rewrite <- ?app_assoc. rewrite Hna. cbn [bind].
+      unfold s_load_ref. cbn [s_refs s_bits bind].
+      destruct cb as [tyb bb rb]. destruct Hnb as [-> Hnb]. rewrite !app_nil_r in Hnb.
+      rewrite <- ?app_assoc in Hnb. rewrite <- ?app_assoc. rewrite Hnb. cbn [bind].
+      repeat (rewrite ?map_app; cbn [map app]; rewrite <- ?app_assoc). reflexivity.
+Qed.
+
+Lemma Forall2_imp {A B} (P Q : A -> B -> Prop) : (forall x y, P x y -> Q x y) ->
+  forall l l', Forall2 P l l' -> Forall2 Q l l'.
+Proof. intros H l l' H2. induction H2; constructor; auto. Qed.
+
+Lemma mapM_app {A B} (f : A -> result B) : forall l1 l2 r1 r2,
+  mapM f l1 = Ok r1 -> mapM f l2 = Ok r2 -> mapM f (l1 ++ l2) = Ok (r1 ++ r2).
+Proof.
+  induction l1 as [|x l1 IH]; intros l2 r1 r2 H1 H2; cbn [mapM app] in *.
+  - inversion H1; subst. exact H2.
+  - destruct (f x) as [y|e]; cbn [bind] in *; [|discriminate].
+    destruct (mapM f l1) as [ys|e] eqn:E; cbn [bind] in *; [|discriminate].
+    inversion H1; subst. rewrite (IH l2 ys r2 eq_refl H2). reflexivity.
+Qed.
+
+Lemma mapM_Forall2 {A B} (f : A -> result B) : forall l r, mapM f l = Ok r -> Forall2 (fun x y => f x = Ok y) l r.
+Proof.
+  induction l as [|x l IH]; intros r H; cbn [mapM] in H.
+  - inversion H; constructor.
+  - destruct (f x) as [y|e] eqn:E; cbn [bind] in H; [|discriminate].
+    destruct (mapM f l) as [ys|e] eqn:E2; cbn [bind] in H; [|discriminate].
+    inversion H; subst. constructor; [exact E|apply IH; reflexivity].
+Qed.
+
 (* ------------------------------------------------------------------------------------------------ *)
 (* Primitive fields: the op, the loaded value, the attribute expression                               *)
 (* ------------------------------------------------------------------------------------------------ *)
@@ -339,8 +652,8 @@ Proof.
   apply H; lia.
 Qed.
 
-Lemma prim_field_load ety wty f o x bits refs tb tr :
-  fty_op f = Some o -> wf_fty f = true -> wt_field wty f x -> enc_field ety f x = Ok (bits, refs) ->
+Lemma prim_field_load ch ety rty wty f o x c bits refs tb tr :
+  fty_op f = Some o -> wf_fty f = true -> wt_field ch wty rty f x c -> enc_field ch ety rty f x = Ok (bits, refs) ->
   prim_load o (mkS (bits ++ tb) (refs ++ tr)) = Ok (fty_raw f x, mkS tb tr).
 Proof.
   intros Hop Hwf Hwt Henc.
@@ -372,8 +685,8 @@ Proof.
   - (* FCell *) reflexivity.
 Qed.
 
-Lemma prim_field_eval wty f o x n env more leaf :
-  fty_op f = Some o -> wt_field wty f x -> List.length env = n ->
+Lemma prim_field_eval ch wty rty f o x c n env more leaf :
+  fty_op f = Some o -> wt_field ch wty rty f x c -> List.length env = n ->
   eval (fty_expr f n) (env ++ [fty_raw f x] ++ more) leaf = x.
 Proof.
   intros Hop Hwt Hn. subst n.
@@ -391,11 +704,11 @@ Proof. destruct f; cbn [fty_op need_field]; intros H; (discriminate || reflexivi
 Lemma maybe_cases (x : pv) : x = PNone \/ x <> PNone.
 Proof. destruct x; (left; reflexivity) || (right; discriminate). Qed.
 
-Lemma enc_maybe_some ety g x : x <> PNone ->
-  enc_field ety (FMaybe g) x = bind (enc_field ety g x) (fun '(b, r) => Ok (true :: b, r)).
+Lemma enc_maybe_some ch ety rty g x : x <> PNone ->
+  enc_field ch ety rty (FMaybe g) x = bind (enc_field ch ety rty g x) (fun '(b, r) => Ok (true :: b, r)).
 Proof. intros H. destruct x; (contradiction || reflexivity). Qed.
 
-Lemma wt_maybe_some wty g x : x <> PNone -> wt_field wty (FMaybe g) x -> wt_field wty g x.
+Lemma wt_maybe_some ch wty rty g x c : x <> PNone -> wt_field ch wty rty (FMaybe g) x c -> wt_field ch wty rty g x c.
 Proof. intros H. destruct x; (contradiction || (intros Hw; exact Hw)). Qed.
 
 (* what a collected attribute (name, expression) must satisfy in the environment E: it evaluates to the
@@ -433,8 +746,8 @@ Proof.
   rewrite <- app_assoc. apply Hp.
 Qed.
 
-Lemma prim_field_entry wty look f o nm n env more :
-  fty_op f = Some o -> wt_field wty f (look nm) -> List.length env = n ->
+Lemma prim_field_entry ch wty rty look f o nm c n env more :
+  fty_op f = Some o -> wt_field ch wty rty f (look nm) c -> List.length env = n ->
   entry_ok look (env ++ [fty_raw f (look nm)] ++ more) (nm, fty_expr f n).
 Proof.
   intros Hop Hwt Hn. subst n.
@@ -444,30 +757,53 @@ Proof.
   apply (entry_hex _ _ _ _ l); [apply nth_middle|exact Hx].
 Qed.
 
+(* what is known of the tail of the cell agrees with the actual tail *)
+Definition ctx_ok (c : ctx) (tb : list bool) (tr : list cell) : Prop :=
+  match c with None => True | Some t => t = (tb, tr) end.
+
+Lemma firstn_add {A} (l : list A) a b : firstn (a + b) l = firstn a l ++ firstn b (skipn a l).
+Proof.
+  revert l. induction a as [|a IH]; intros l; [reflexivity|].
+  destruct l as [|x l]; cbn [Nat.add firstn skipn app]; [rewrite firstn_nil; reflexivity|].
+  rewrite IH. reflexivity.
+Qed.
+
+Lemma skipn_add {A} (l : list A) a b : skipn (a + b) l = skipn b (skipn a l).
+Proof.
+  revert l. induction a as [|a IH]; intros l; [reflexivity|].
+  destruct l as [|x l]; cbn [Nat.add skipn]; [rewrite skipn_nil; reflexivity|]. apply IH.
+Qed.
+
 Section Correct.
   Variable tbl : table.
   Variable st : stable.
+  Variable ch : pv -> bool.
   Variable d : nat.
+
+  Local Notation WT := (wt_field ch (wt_type ch st d) (rest_type ch st)).
+  Local Notation ENC := (enc_field ch (enc_type ch st d) (rest_type ch st)).
+  Local Notation NEED := (need_field (need_type st d)).
+  Local Notation ord := (mkTS ty_ordinary).
 
   (* what is assumed of the named types at nesting depth d *)
   Definition ty_ok : Prop :=
-    forall T a x bits refs, wt_type st d T a x -> enc_type st d T a x = Ok (bits, refs) ->
+    forall T a c x bits refs, wt_type ch st d T a c x -> enc_type ch st d T a x = Ok (bits, refs) ->
       exists tree, lookup tbl T a = Some tree /\
-        forall fuel ty tb tr, need_type st d T a <= fuel ->
-          exists ss', run tbl fuel tree [(0, mkTS ty (mkS (bits ++ tb) (refs ++ tr)))] [] [] = Ok (x, ss')
-                      /\ get_slice ss' 0 = Ok (mkTS ty (mkS tb tr)).
+        forall fuel tb tr, ctx_ok c tb tr -> need_type st d T a <= fuel ->
+          exists ss', run tbl fuel tree [(0, ord (mkS (bits ++ tb) (refs ++ tr)))] [] [] = Ok (x, ss')
+                      /\ get_slice ss' 0 = Ok (ord (mkS tb tr)).
   Hypothesis Hty : ty_ok.
 
   (* the tree t, entered with n variables bound, reaches the continuation k having consumed exactly the
      encoding from sub-slice sid, with the attributes `names` bound to the values `look` gives them *)
   Definition post (t : dtree) (k : kont) (names : list string) (look : string -> pv)
       (sid n ns : nat) (acc : list (string * dexpr)) (ss : slices) (env : list pv) (w : list nat)
-      (ty : Z) (tb : list bool) (tr : list cell) (fuel bound : nat) : Prop :=
+      (tb : list bool) (tr : list cell) (fuel bound : nat) : Prop :=
     exists c ss' vals ws acc' ns',
       run tbl fuel t ss env w
       = run tbl (fuel - c) (k (n + List.length vals) ns' (acc ++ acc')) ss' (env ++ vals) (w ++ ws)
       /\ c <= bound
-      /\ get_slice ss' sid = Ok (mkTS ty (mkS tb tr))
+      /\ get_slice ss' sid = Ok (ord (mkS tb tr))
       /\ (forall j, j <> sid -> j < ns -> get_slice ss' j = get_slice ss j)
       /\ List.length ws = List.length vals /\ ns <= ns'
       /\ map fst acc' = names
@@ -475,50 +811,74 @@ Section Correct.
 
   (* the leaves of a dictionary, parsed one by one by the value tree, give back the pairs *)
   Lemma dict_run vf n vt f : forall (kl : list (Z * pv)) (src : kvs),
-    (forall kv b r, In kv kl -> enc_field (enc_type st d) vf (snd kv) = Ok (b, r) ->
-       wt_field (wt_type st d) vf (snd kv) ->
-       exists ss', run tbl f vt [(0, mkTS ty_ordinary (mkS b r))] [] [] = Ok (snd kv, ss')) ->
-    mapM (fun kv => rmap (fun p => (enc n (fst kv), p)) (enc_field (enc_type st d) vf (snd kv))) kl = Ok src ->
-    Forall (fun kv => (0 <= fst kv < 2 ^ Z.of_nat n)%Z /\ wt_field (wt_type st d) vf (snd kv)) kl ->
+    (forall kv b r, In kv kl -> ENC vf (snd kv) = Ok (b, r) -> WT vf (snd kv) None ->
+       exists ss', run tbl f vt [(0, ord (mkS b r))] [] [] = Ok (snd kv, ss')) ->
+    enc_kvs n (ENC vf) kl = Ok src ->
+    Forall (fun kv => (0 <= fst kv < 2 ^ Z.of_nat n)%Z /\ WT vf (snd kv) None) kl ->
     mapM (fun '(key, ls) =>
-            rmap (fun '(v, _) => (Z.of_N (of_bits key), v)) (run tbl f vt [(0, mkTS ty_ordinary ls)] [] []))
+            rmap (fun '(v, _) => (Z.of_N (of_bits key), v)) (run tbl f vt [(0, ord ls)] [] []))
          (map rt_conv src) = Ok kl
+    /\ (exists kvs3,
+          mapM (fun '(key, ls) =>
+                  rmap (fun '(v, ss1) => (Z.of_N (of_bits key), v, ss1)) (run tbl f vt [(0, ord ls)] [] []))
+               (map rt_conv src) = Ok kvs3
+          /\ map (fun '(k, v, _) => (k, v)) kvs3 = kl)
     /\ map fst src = map (enc n) (map fst kl).
   Proof.
+    unfold enc_kvs.
     induction kl as [|[k x] rest IH]; intros src Hval Hsrc Hall.
-    - cbn [mapM] in Hsrc. inversion Hsrc; subst src. split; reflexivity.
+    - cbn [mapM] in Hsrc. inversion Hsrc; subst src. split; [reflexivity|]. split; [|reflexivity].
+      exists []. split; reflexivity.
     - cbn [mapM fst snd] in Hsrc.
-      destruct (enc_field (enc_type st d) vf x) as [[b r]|e0] eqn:Hx; cbn [rmap bind] in Hsrc; [|discriminate].
-      destruct (mapM (fun kv => rmap (fun p => (enc n (fst kv), p)) (enc_field (enc_type st d) vf (snd kv))) rest)
+      destruct (ENC vf x) as [[b r]|e0] eqn:Hx; cbn [rmap bind] in Hsrc; [|discriminate].
+      destruct (mapM (fun kv => rmap (fun p => (enc n (fst kv), p)) (ENC vf (snd kv))) rest)
         as [src'|e0] eqn:Hrest; cbn [bind] in Hsrc; [|discriminate].
       inversion Hsrc; subst src; clear Hsrc. inversion Hall as [|? ? [Hk Hwx] Hall']; subst.
       cbn [fst snd] in Hk, Hwx.
-      destruct (IH src') as [IH1 IH2]; [|reflexivity|exact Hall'|].
+      destruct (IH src') as (IH1 & (kvs3 & IH3 & IH3') & IH2); [|reflexivity|exact Hall'|].
       { intros kv b' r' Hin. apply Hval. right. exact Hin. }
       destruct (Hval (k, x) b r (or_introl eq_refl) Hx Hwx) as (ss' & Hrun). cbn [snd] in Hrun.
-      split.
+      split; [|split].
       + cbn [map rt_conv fst snd mapM]. rewrite Hrun. cbn [rmap bind]. rewrite IH1. cbn [bind].
         rewrite of_bits_enc, Z.mod_small, Z2N.id by lia. reflexivity.
+      + exists ((k, x, ss') :: kvs3). split.
+        * cbn [map rt_conv fst snd mapM]. rewrite Hrun. cbn [rmap bind]. rewrite IH3. cbn [bind].
+          rewrite of_bits_enc, Z.mod_small, Z2N.id by lia. reflexivity.
+        * cbn [map]. rewrite IH3'. reflexivity.
       + cbn [map fst]. rewrite IH2. reflexivity.
   Qed.
 
-  Lemma field_prim f o nm look bits refs :
-    fty_op f = Some o ->
-    wf_fty f = true -> wt_field (wt_type st d) f (look nm) ->
-    enc_field (enc_type st d) f (look nm) = Ok (bits, refs) ->
-    forall sid n ns acc k ss env w ty tb tr fuel,
-      get_slice ss sid = Ok (mkTS ty (mkS (bits ++ tb) (refs ++ tr))) ->
-      List.length env = n -> List.length w = n -> sid < ns -> need_field (need_type st d) f <= fuel ->
-      post (compile_field f nm sid n ns acc k) k [nm] look sid n ns acc ss env w ty tb tr fuel
-           (need_field (need_type st d) f).
+  (* the canonical tree of ascending in-range keys: its leaves are the encoded pairs, in order *)
+  Lemma dict_leaves vf n (kl : list (Z * pv)) (src : kvs) e :
+    map fst src = map (enc n) (map fst kl) -> ascending (map fst kl) = true ->
+    Forall (fun kv => (0 <= fst kv < 2 ^ Z.of_nat n)%Z /\ WT vf (snd kv) None) kl ->
+    s_patricia (S n) src = Some e ->
+    leaves_of (canon_kinds (canon_vtree e) n) [] = map rt_conv src.
   Proof.
-    intros Hop Hwf Hwt Henc sid n ns acc k ss env w ty tb tr fuel Hget Hn Hw Hsid Hfuel.
+    intros Hkeys Hasc Hall Hpat.
+    assert (Hrange : Forall (fun k => (0 <= k < 2 ^ Z.of_nat n)%Z) (map fst kl)).
+    { apply Forall_map. eapply Forall_impl; [|exact Hall]. intros kv [H1 _]. exact H1. }
+    apply canon_leaves; [| |exact (asc_sorted n src _ Hkeys Hasc Hrange)|exact Hpat].
+    - rewrite Hkeys. apply asc_nodup; assumption.
+    - exact (keys_length n src _ Hkeys).
+  Qed.
+
+  Lemma field_prim f o nm look c bits refs :
+    fty_op f = Some o ->
+    wf_fty f = true -> WT f (look nm) c ->
+    ENC f (look nm) = Ok (bits, refs) ->
+    forall sid n ns acc k ss env w tb tr fuel,
+      get_slice ss sid = Ok (ord (mkS (bits ++ tb) (refs ++ tr))) ->
+      List.length env = n -> List.length w = n -> sid < ns -> NEED f <= fuel ->
+      post (compile_field f nm sid n ns acc k) k [nm] look sid n ns acc ss env w tb tr fuel (NEED f).
+  Proof.
+    intros Hop Hwf Hwt Henc sid n ns acc k ss env w tb tr fuel Hget Hn Hw Hsid Hfuel.
     rewrite (need_prim _ f o Hop) in *. rewrite (compile_prim f o nm sid n ns acc k Hop).
-    exists 1, (set_slice ss sid (mkTS ty (mkS tb tr))), [fty_raw f (look nm)], [op_width o],
+    exists 1, (set_slice ss sid (ord (mkS tb tr))), [fty_raw f (look nm)], [op_width o],
            [(nm, fty_expr f n)], ns.
     split; [|split; [|split; [|split; [|split; [|split; [|split]]]]]].
     - rewrite (run_prim tbl fuel sid o _ ss env w _ _ _ Hfuel Hget
-                 (prim_field_load _ _ f o _ bits refs tb tr Hop Hwf Hwt Henc)).
+                 (prim_field_load _ _ _ _ f o _ c bits refs tb tr Hop Hwf Hwt Henc)).
       cbn [ts_ty List.length]. replace (n + 1) with (S n) by lia. reflexivity.
     - lia.
     - apply get_set_same.
@@ -527,26 +887,168 @@ Section Correct.
     - lia.
     - reflexivity.
     - constructor; [|constructor]. intros more.
-      apply (prim_field_entry (wt_type st d) look f o); assumption.
+      apply (prim_field_entry ch (wt_type ch st d) (rest_type ch st) look f o nm c); assumption.
   Qed.
 
-  Lemma field_correct : forall f nm look bits refs,
-    wf_fty f = true -> wt_field (wt_type st d) f (look nm) ->
-    enc_field (enc_type st d) f (look nm) = Ok (bits, refs) ->
-    forall sid n ns acc k ss env w ty tb tr fuel,
-      get_slice ss sid = Ok (mkTS ty (mkS (bits ++ tb) (refs ++ tr))) ->
-      List.length env = n -> List.length w = n -> sid < ns -> need_field (need_type st d) f <= fuel ->
-      post (compile_field f nm sid n ns acc k) k [nm] look sid n ns acc ss env w ty tb tr fuel
-           (need_field (need_type st d) f).
+  (* the statement proved for every field type *)
+  Definition field_ok (f : fty) : Prop :=
+    forall nm look c bits refs,
+      wf_fty f = true -> WT f (look nm) c -> ENC f (look nm) = Ok (bits, refs) ->
+      forall sid n ns acc k ss env w tb tr fuel,
+        ctx_ok c tb tr ->
+        get_slice ss sid = Ok (ord (mkS (bits ++ tb) (refs ++ tr))) ->
+        List.length env = n -> List.length w = n -> sid < ns -> NEED f <= fuel ->
+        post (compile_field f nm sid n ns acc k) k [nm] look sid n ns acc ss env w tb tr fuel (NEED f).
+
+  (* a value alone in a slice (a dictionary leaf), followed by anything *)
+  Lemma value_run vf x b r fuel tb tr :
+    field_ok vf -> wf_fty vf = true -> WT vf x None -> ENC vf x = Ok (b, r) -> NEED vf + 1 <= fuel ->
+    exists ss', run tbl fuel (compile_field vf ""%string 0 0 1 [] kret) [(0, ord (mkS (b ++ tb) (r ++ tr)))] [] []
+                = Ok (x, ss') /\ get_slice ss' 0 = Ok (ord (mkS tb tr)).
   Proof.
-    induction f as [w0|m0|m0|w0| | |w0|w0|w0| |m0|m0| | | | | |T a|T a|g IH|dn vf IHvf|cv];
-      intros nm look bits refs Hwf Hwt Henc sid n ns acc k ss env w ty tb tr fuel Hget Hn Hw Hsid Hfuel;
+    intros Hok Hwf Hwt Henc Hfuel.
+    destruct (Hok ""%string (fun _ => x) None b r Hwf Hwt Henc 0 0 1 [] kret
+                [(0, ord (mkS (b ++ tb) (r ++ tr)))] [] [] tb tr fuel)
+      as (c & ss1 & vals & ws & acc1 & ns1 & Hrun & Hc & Hg & _ & _ & _ & Hnames & Hev);
+      try (reflexivity || lia || exact I).
+    destruct acc1 as [|[nm1 e1] [|q acc2]]; cbn [map] in Hnames; try discriminate.
+    cbn [app] in Hrun. unfold kret in Hrun at 2. rewrite run_ret in Hrun by lia.
+    exists ss1. split; [|exact Hg]. rewrite Hrun. f_equal. f_equal.
+    inversion Hev as [|p l Hp _]; subst. destruct (Hp []) as [He _]. cbn [app fst snd] in He.
+    rewrite app_nil_r in He. apply He.
+  Qed.
+
+  (* a non-empty HashmapE n X behind its presence bit: load_dict gives back the pairs *)
+  Lemma dict_correct vf dn (kvs : list (Z * pv)) src t fuel :
+    field_ok vf -> wf_fty vf = true -> 1 <= dn <= 1023 -> NEED vf + 1 <= fuel ->
+    ascending (map fst kvs) = true ->
+    Forall (fun kv => (0 <= fst kv < 2 ^ Z.of_nat dn)%Z /\ WT vf (snd kv) None) kvs ->
+    enc_kvs dn (ENC vf) kvs = Ok src -> dict_tree dn src = Ok t ->
+    forall tb tr,
+    exists leaves,
+      s_load_dict (mkS (true :: tb) (cell_of t dn :: tr)) (Z.of_nat dn) = Ok (Some leaves, mkS tb tr) /\
+      mapM (fun '(key, ls) =>
+              rmap (fun '(v, _) => (Z.of_N (of_bits key), v))
+                   (run tbl fuel (compile_field vf ""%string 0 0 1 [] kret) [(0, ord ls)] [] [])) leaves = Ok kvs.
+  Proof.
+    intros Hok Hwf Hdn Hfuel Hasc Hall Hsrc Ht tb tr.
+    destruct (dict_tree_ok dn src t Ht) as (e & Hpat & -> & Hvok).
+    destruct (dict_run vf dn (compile_field vf ""%string 0 0 1 [] kret) fuel kvs src) as (Hmap & _ & Hkeys).
+    { intros kv b r Hin Henc1 Hwt1.
+      destruct (value_run vf (snd kv) b r fuel [] [] Hok Hwf Hwt1 Henc1 Hfuel) as (ss' & Hrun & _).
+      rewrite !app_nil_r in Hrun. exists ss'. exact Hrun. }
+    { exact Hsrc. }
+    { exact Hall. }
+    exists (map rt_conv src). split; [|exact Hmap].
+    rewrite <- (dict_leaves vf dn kvs src e Hkeys Hasc Hall Hpat).
+    apply load_dict_valid; [lia|exact Hvok|apply canon_cell_ordinary].
+  Qed.
+
+  Local Ltac post_split := split; [|split; [|split; [|split; [|split; [|split; [|split]]]]]].
+
+  (* ---- HashmapAug: a node of the schema and what the visit of it yields (the pair, the extra) ---- *)
+  Definition ev_rel (n : nat) (vf xf : fty) (ev : aug_ev) (dd : option (Z * pv) * pv) : Prop :=
+    ENC xf (snd dd) = Ok (snd ev) /\ WT xf (snd dd) None /\
+    match fst ev, fst dd with
+    | Some (key, vp), Some (k, v) =>
+        key = enc n k /\ (0 <= k < 2 ^ Z.of_nat n)%Z /\ ENC vf v = Ok vp /\ WT vf v None
+    | None, None => True
+    | _, _ => False
+    end.
+  Definition dd_leaves (ds : list (option (Z * pv) * pv)) : list (Z * pv) :=
+    flat_map (fun dd => match fst dd with Some kv => [kv] | None => [] end) ds.
+
+  Lemma visit_ok n vf xf ev dd fuel tb tr :
+    field_ok vf -> field_ok xf -> wf_fty vf = true -> wf_fty xf = true ->
+    ev_rel n vf xf ev dd -> NEED vf + 1 <= fuel -> NEED xf + 1 <= fuel ->
+    aug_visit_fn tbl fuel (compile_field vf ""%string 0 0 1 [] kret) (compile_field xf ""%string 0 0 1 [] kret)
+      (ev_node ev tb tr) = Ok (dd, mkS tb tr).
+  Proof.
+    intros Hokv Hokx Hwfv Hwfx (Hex & Hwx & Hrel) Hfv Hfx.
+    destruct ev as [[[key [vb vr]]|] [xb xr]]; destruct dd as [[[k v]|] ex]; cbn [fst snd] in *; try contradiction.
+    - destruct Hrel as (Hkey & Hk & Hev & Hwv).
+      unfold ev_node. cbn [fst ev_slice aug_visit_fn snd].
+      destruct (value_run xf ex xb xr fuel (vb ++ tb) (vr ++ tr) Hokx Hwfx Hwx Hex Hfx) as (ss1 & Hr1 & Hg1).
+      rewrite Hr1. cbn [bind]. rewrite Hg1. cbn [bind].
+      destruct (value_run vf v vb vr fuel tb tr Hokv Hwfv Hwv Hev Hfv) as (ss2 & Hr2 & Hg2).
+      rewrite Hr2. cbn [bind]. rewrite Hg2. cbn [bind ts_s]. subst key.
+      rewrite of_bits_enc, Z.mod_small, Z2N.id by lia. reflexivity.
+    - unfold ev_node. cbn [fst ev_slice aug_visit_fn snd].
+      destruct (value_run xf ex xb xr fuel tb tr Hokx Hwfx Hwx Hex Hfx) as (ss1 & Hr1 & Hg1).
+      rewrite Hr1. cbn [bind]. rewrite Hg1. reflexivity.
+  Qed.
+
+  Lemma visits_ok n vf xf fuel :
+    field_ok vf -> field_ok xf -> wf_fty vf = true -> wf_fty xf = true ->
+    NEED vf + 1 <= fuel -> NEED xf + 1 <= fuel ->
+    forall evs ds, Forall2 (ev_rel n vf xf) evs ds ->
+    mapM (aug_visit_fn tbl fuel (compile_field vf ""%string 0 0 1 [] kret) (compile_field xf ""%string 0 0 1 [] kret))
+         (map (fun e0 => ev_node e0 [] []) evs) = Ok (map (fun dd => (dd, mkS [] [])) ds).
+  Proof.
+    intros Hokv Hokx Hwfv Hwfx Hfv Hfx evs ds H. induction H as [|ev dd evs ds Hr _ IH]; [reflexivity|].
+    cbn [map mapM]. rewrite (visit_ok n vf xf ev dd fuel [] [] Hokv Hokx Hwfv Hwfx Hr Hfv Hfx).
+    cbn [bind]. rewrite IH. reflexivity.
+  Qed.
+
+  (* the nodes of the tree, the pairs and the extras of the value, side by side *)
+  Lemma aug_zip n vf xf : forall evs extras kvs,
+    Forall2 (fun ex p => ENC xf ex = Ok p /\ WT xf ex None) extras (map snd evs) ->
+    Forall2 (fun kv sp => fst sp = enc n (fst kv) /\ (0 <= fst kv < 2 ^ Z.of_nat n)%Z /\
+                          ENC vf (snd kv) = Ok (snd sp) /\ WT vf (snd kv) None) kvs (ev_leaves evs) ->
+    exists ds, Forall2 (ev_rel n vf xf) evs ds /\ dd_leaves ds = kvs /\ map snd ds = extras.
+  Proof.
+    induction evs as [|[lf xp] evs IH]; intros extras kvs Hex Hkv.
+    - cbn [map] in Hex. inversion Hex; subst. cbn in Hkv. inversion Hkv; subst.
+      exists []. repeat split. constructor.
+    - cbn [map snd] in Hex. inversion Hex as [|ex p extras' ps [He Hw] Hex']; subst.
+      destruct lf as [[key vp]|].
+      + change (ev_leaves ((Some (key, vp), xp) :: evs)) with ((key, vp) :: ev_leaves evs) in Hkv.
+        inversion Hkv as [|kv sp kvs' sps (Hk1 & Hk2 & Hk3 & Hk4) Hkv']; subst. cbn [fst snd] in *.
+        destruct (IH extras' kvs' Hex' Hkv') as (ds & Hds & Hl & Hx).
+        exists ((Some kv, ex) :: ds). split; [|split].
+        * constructor; [|exact Hds]. unfold ev_rel. cbn [fst snd]. destruct kv as [k v]. cbn [fst snd] in *.
+          repeat split; try assumption; lia.
+        * unfold dd_leaves in *. cbn [flat_map fst app]. rewrite Hl. reflexivity.
+        * cbn [map snd]. rewrite Hx. reflexivity.
+      + change (ev_leaves ((None, xp) :: evs)) with (ev_leaves evs) in Hkv.
+        destruct (IH extras' kvs Hex' Hkv) as (ds & Hds & Hl & Hx).
+        exists ((None, ex) :: ds). split; [|split].
+        * constructor; [|exact Hds]. unfold ev_rel. cbn [fst snd]. repeat split; assumption.
+        * unfold dd_leaves in *. cbn [flat_map fst app]. exact Hl.
+        * cbn [map snd]. rewrite Hx. reflexivity.
+  Qed.
+
+  Lemma enc_kvs_rel n vf : forall (kl : list (Z * pv)) (src : kvs),
+    enc_kvs n (ENC vf) kl = Ok src ->
+    Forall2 (fun kv sp => fst sp = enc n (fst kv) /\ ENC vf (snd kv) = Ok (snd sp)) kl src.
+  Proof.
+    unfold enc_kvs. intros kl src H. apply mapM_Forall2 in H.
+    eapply Forall2_imp; [|exact H]. intros kv sp Hx. cbn beta in Hx.
+    destruct (ENC vf (snd kv)) as [pp|e]; cbn [rmap] in Hx; [|discriminate]. inversion Hx; subst. split; reflexivity.
+  Qed.
+
+  Lemma Forall2_and_l {A B} (P : A -> B -> Prop) (Q : A -> Prop) : forall l l',
+    Forall2 P l l' -> Forall Q l -> Forall2 (fun x y => P x y /\ Q x) l l'.
+  Proof.
+    induction 1 as [|x y l l' Hp _ IH]; intros Hq; [constructor|].
+    inversion Hq; subst. constructor; [split; assumption|apply IH; assumption].
+  Qed.
+
+  Lemma rt_prep_nil (l : kvs) : map (rt_prep []) l = l.
+  Proof. rewrite <- (map_id l) at 2. apply map_ext. intros [k v]. reflexivity. Qed.
+
+  Lemma field_correct : forall f, field_ok f.
+  Proof.
+    unfold field_ok.
+    induction f as [w0|m0|m0|w0| | |w0|w0|w0| |m0|m0| | | | | |T a|T a|g IH|dn vf IHvf|cv
+                    |fl IHl fr IHr| |hn hvf IHh|vn vvf IHv|an avf IHa axf IHx|an avf IHa axf IHx];
+      intros nm look c bits refs Hwf Hwt Henc sid n ns acc k ss env w tb tr fuel Hctx Hget Hn Hw Hsid Hfuel;
       try (solve [eapply field_prim; [reflexivity|eassumption..]]).
     - (* FMaybeCell *)
       cbn [need_field] in *. cbn [compile_field]. cbn [wt_field] in Hwt. cbn [enc_field ok_bits] in Henc.
       destruct (look nm) eqn:Hx; try contradiction; inversion Henc; subst bits refs; clear Henc.
-      + exists 2, (set_slice ss sid (mkTS ty (mkS tb tr))), [PNone], [1], [(nm, ENone)], ns.
-        split; [|split; [|split; [|split; [|split; [|split; [|split]]]]]].
+      + exists 2, (set_slice ss sid (ord (mkS tb tr))), [PNone], [1], [(nm, ENone)], ns.
+        post_split.
         * rewrite (run_prim tbl fuel sid OMaybeRefCell _ ss env w _ PNone (mkS tb tr)) by (lia || eassumption || reflexivity).
           rewrite (run_if tbl _ n 0 _ _ _ _ _ false);
             [|lia|rewrite <- Hn, nth_middle; reflexivity].
@@ -559,9 +1061,9 @@ Section Correct.
         * lia.
         * reflexivity.
         * constructor; [|constructor]. intros more. apply entry_none. exact Hx.
-      + exists 2, (set_slice ss sid (mkTS ty (mkS tb tr))), [PCell c], [1], [(nm, EVar n)], ns.
-        split; [|split; [|split; [|split; [|split; [|split; [|split]]]]]].
-        * rewrite (run_prim tbl fuel sid OMaybeRefCell _ ss env w _ (PCell c) (mkS tb tr)) by (lia || eassumption || reflexivity).
+      + exists 2, (set_slice ss sid (ord (mkS tb tr))), [PCell c0], [1], [(nm, EVar n)], ns.
+        post_split.
+        * rewrite (run_prim tbl fuel sid OMaybeRefCell _ ss env w _ (PCell c0) (mkS tb tr)) by (lia || eassumption || reflexivity).
           rewrite (run_if tbl _ n 0 _ _ _ _ _ true);
             [|lia|rewrite <- Hn, nth_middle; reflexivity].
           cbn [ts_ty List.length]. replace (n + 1) with (S n) by lia.
@@ -576,10 +1078,10 @@ Section Correct.
           rewrite nth_middle. symmetry. exact Hx.
     - (* FType *)
       cbn [need_field] in *. cbn [compile_field]. cbn [wt_field] in Hwt. cbn [enc_field] in Henc.
-      destruct (Hty T a (look nm) bits refs Hwt Henc) as (tree & Hlk & Hrun).
-      destruct (Hrun (fuel - 1) ty tb tr) as (ss1 & Hrun1 & Hget1); [lia|].
-      exists 1, (set_slice ss sid (mkTS ty (mkS tb tr))), [look nm], [1], [(nm, EVar n)], ns.
-      split; [|split; [|split; [|split; [|split; [|split; [|split]]]]]].
+      destruct (Hty T a c (look nm) bits refs Hwt Henc) as (tree & Hlk & Hrun).
+      destruct (Hrun (fuel - 1) tb tr Hctx) as (ss1 & Hrun1 & Hget1); [lia|].
+      exists 1, (set_slice ss sid (ord (mkS tb tr))), [look nm], [1], [(nm, EVar n)], ns.
+      post_split.
       + rewrite (run_call tbl fuel sid T a _ ss env w _ tree (look nm) ss1 _) by (lia || eassumption).
         cbn [List.length]. replace (n + 1) with (S n) by lia. reflexivity.
       + lia.
@@ -592,20 +1094,21 @@ Section Correct.
         rewrite nth_middle. reflexivity.
     - (* FRefType *)
       cbn [need_field] in *. cbn [compile_field]. cbn [wt_field] in Hwt. cbn [enc_field] in Henc.
-      destruct (enc_type st d T a (look nm)) as [[b r]|e] eqn:Hinner; cbn [bind] in Henc; [|discriminate].
+      destruct (enc_type ch st d T a (look nm)) as [[b r]|e] eqn:Hinner; cbn [bind] in Henc; [|discriminate].
       inversion Henc; subst bits refs; clear Henc.
-      destruct (Hty T a (look nm) b r Hwt Hinner) as (tree & Hlk & Hrun).
-      destruct (Hrun (fuel - 1 - 1) ty_ordinary [] []) as (ss1 & Hrun1 & Hget1); [lia|].
-      rewrite !app_nil_r in Hrun1.
-      set (ssA := set_slice (set_slice ss sid (mkTS ty (mkS tb tr))) ns (mkTS ty_ordinary (mkS b r))).
-      exists 2, (set_slice ssA ns (mkTS ty_ordinary (mkS [] []))),
-             [PCell (Cell ty_ordinary b r); look nm], [1; 1], [(nm, EVar (S n))], (S ns).
-      split; [|split; [|split; [|split; [|split; [|split; [|split]]]]]].
-      + rewrite (run_ref tbl fuel sid ns _ ss env w _ (Cell ty_ordinary b r) (mkS tb tr))
+      destruct (rest_type ch st T a (look nm)) as [rb rr] eqn:Hrest. cbn [fst snd] in *.
+      destruct (Hty T a (Some (rb, rr)) (look nm) b r Hwt Hinner) as (tree & Hlk & Hrun).
+      destruct (Hrun (fuel - 1 - 1) rb rr eq_refl) as (ss1 & Hrun1 & Hget1); [lia|].
+      set (cc := Cell ty_ordinary (b ++ rb) (r ++ rr)) in *.
+      set (ssA := set_slice (set_slice ss sid (ord (mkS tb tr))) ns (ord (mkS (b ++ rb) (r ++ rr)))).
+      exists 2, (set_slice ssA ns (ord (mkS rb rr))),
+             [PCell cc; look nm], [1; 1], [(nm, EVar (S n))], (S ns).
+      post_split.
+      + rewrite (run_ref tbl fuel sid ns _ ss env w _ cc (mkS tb tr))
           by (lia || eassumption || reflexivity).
-        cbn [ts_ty cell_slice]. fold ssA.
-        rewrite (run_call tbl (fuel - 1) ns T a _ ssA _ _ (mkTS ty_ordinary (mkS b r)) tree (look nm) ss1
-                   (mkTS ty_ordinary (mkS [] []))); [|lia|apply get_set_same|assumption|assumption|assumption].
+        cbn [ts_ty cell_slice cc]. fold ssA.
+        rewrite (run_call tbl (fuel - 1) ns T a _ ssA _ _ (ord (mkS (b ++ rb) (r ++ rr))) tree (look nm) ss1
+                   (ord (mkS rb rr))); [|lia|apply get_set_same|assumption|assumption|assumption].
         rewrite <- !app_assoc. cbn [List.length app].
         replace (n + 2) with (S (S n)) by lia. replace (fuel - 1 - 1) with (fuel - 2) by lia. reflexivity.
       + lia.
@@ -616,17 +1119,16 @@ Section Correct.
       + lia.
       + reflexivity.
       + constructor; [|constructor]. intros more. apply entry_var. cbn [app]. subst n.
-        change (PCell (Cell ty_ordinary b r) :: look nm :: more)
-          with ([PCell (Cell ty_ordinary b r)] ++ look nm :: more).
-        rewrite app_assoc. replace (S (List.length env)) with (List.length (env ++ [PCell (Cell ty_ordinary b r)]))
+        change (PCell cc :: look nm :: more) with ([PCell cc] ++ look nm :: more).
+        rewrite app_assoc. replace (S (List.length env)) with (List.length (env ++ [PCell cc]))
           by (rewrite app_length; cbn; lia).
         rewrite nth_middle. reflexivity.
     - (* FMaybe *)
       cbn [need_field] in *. cbn [compile_field]. cbn [wf_fty] in Hwf.
       destruct (maybe_cases (look nm)) as [Hx|Hx].
       + rewrite Hx in Henc. cbn [enc_field ok_bits] in Henc. inversion Henc; subst bits refs; clear Henc.
-        exists 2, (set_slice ss sid (mkTS ty (mkS tb tr))), [PBool false], [1], [(nm, ENone)], ns.
-        split; [|split; [|split; [|split; [|split; [|split; [|split]]]]]].
+        exists 2, (set_slice ss sid (ord (mkS tb tr))), [PBool false], [1], [(nm, ENone)], ns.
+        post_split.
         * rewrite (run_prim tbl fuel sid OBit _ ss env w _ (PBool false) (mkS tb tr)) by (lia || eassumption || reflexivity).
           rewrite (run_if tbl _ n 0 _ _ _ _ _ false);
             [|lia|rewrite <- Hn, nth_middle; reflexivity].
@@ -639,27 +1141,27 @@ Section Correct.
         * lia.
         * reflexivity.
         * constructor; [|constructor]. intros more. apply entry_none. exact Hx.
-      + rewrite (enc_maybe_some _ g _ Hx) in Henc.
-        destruct (enc_field (enc_type st d) g (look nm)) as [[b r]|e] eqn:Hinner; cbn [bind] in Henc; [|discriminate].
+      + rewrite (enc_maybe_some _ _ _ g _ Hx) in Henc.
+        destruct (ENC g (look nm)) as [[b r]|e] eqn:Hinner; cbn [bind] in Henc; [|discriminate].
         inversion Henc; subst bits refs; clear Henc.
-        pose proof (wt_maybe_some _ g _ Hx Hwt) as Hwt'.
-        set (ssA := set_slice ss sid (mkTS ty (mkS (b ++ tb) (r ++ tr)))).
-        destruct (IH nm look b r Hwf Hwt' Hinner sid (S n) ns acc k ssA (env ++ [PBool true]) (w ++ [1])
-                     ty tb tr (fuel - 1 - 1)) as (c & ss' & vals & ws & acc' & ns' & Hrun & Hc & Hg & Hfr & Hlen & Hns & Hnames & Hev).
+        pose proof (wt_maybe_some _ _ _ g _ c Hx Hwt) as Hwt'.
+        set (ssA := set_slice ss sid (ord (mkS (b ++ tb) (r ++ tr)))).
+        destruct (IH nm look c b r Hwf Hwt' Hinner sid (S n) ns acc k ssA (env ++ [PBool true]) (w ++ [1])
+                     tb tr (fuel - 1 - 1) Hctx) as (c1 & ss' & vals & ws & acc' & ns' & Hrun & Hc & Hg & Hfr & Hlen & Hns & Hnames & Hev).
         { apply get_set_same. }
         { rewrite app_length. cbn. lia. }
         { rewrite app_length. cbn. lia. }
         { exact Hsid. }
         { lia. }
-        exists (2 + c), ss', (PBool true :: vals), (1 :: ws), acc', ns'.
-        split; [|split; [|split; [|split; [|split; [|split; [|split]]]]]].
+        exists (2 + c1), ss', (PBool true :: vals), (1 :: ws), acc', ns'.
+        post_split.
         * rewrite (run_prim tbl fuel sid OBit _ ss env w _ (PBool true) (mkS (b ++ tb) (r ++ tr)))
             by (lia || eassumption || reflexivity).
           rewrite (run_if tbl _ n 0 _ _ _ _ _ true);
             [|lia|rewrite <- Hn, nth_middle; reflexivity].
           cbn [ts_ty op_width]. fold ssA. rewrite Hrun. rewrite <- !app_assoc. cbn [List.length app].
           replace (S n + List.length vals) with (n + S (List.length vals)) by lia.
-          replace (fuel - 1 - 1 - c) with (fuel - (2 + c)) by lia. reflexivity.
+          replace (fuel - 1 - 1 - c1) with (fuel - (2 + c1)) by lia. reflexivity.
         * lia.
         * exact Hg.
         * intros j Hj Hlt. rewrite (Hfr j Hj Hlt). unfold ssA. apply get_set_other. exact Hj.
@@ -675,8 +1177,8 @@ Section Correct.
       destruct (look nm) as [z0|b0|bs0|l0|s0| |a0|c0|sl0|cls0 fs0|l0|kvs|l0|l0 ex0|] eqn:Hx; try contradiction.
       + (* the empty dictionary *)
         cbn [ok_bits] in Henc. inversion Henc; subst bits refs; clear Henc.
-        exists 2, (set_slice ss sid (mkTS ty (mkS tb tr))), [PNone], [1], [(nm, ENone)], ns.
-        split; [|split; [|split; [|split; [|split; [|split; [|split]]]]]].
+        exists 2, (set_slice ss sid (ord (mkS tb tr))), [PNone], [1], [(nm, ENone)], ns.
+        post_split.
         * rewrite (run_dict_empty tbl fuel sid dn _ _ ss env w _ (mkS tb tr)) by (lia || eassumption || reflexivity).
           rewrite (run_if tbl _ n 0 _ _ _ _ _ false);
             [|lia|rewrite <- Hn, nth_middle; reflexivity].
@@ -691,47 +1193,20 @@ Section Correct.
         * constructor; [|constructor]. intros more. apply entry_none. exact Hx.
       + (* a non-empty dictionary: the canonical tree of the encoded pairs *)
         destruct Hwt as (Hne & Hasc & Hall). apply all_of_Forall in Hall.
-        destruct (mapM (fun kv => rmap (fun p => (enc dn (fst kv), p)) (enc_field (enc_type st d) vf (snd kv))) kvs)
-          as [src|e0] eqn:Hsrc; cbn [bind] in Henc; [|discriminate].
-        destruct (s_patricia (S dn) src) as [e|] eqn:Hpat; [|discriminate]. cbv zeta in Henc.
-        destruct (vtree_ok (canon_kinds (canon_vtree e) dn) dn) eqn:Hvok; [|discriminate].
+        destruct (enc_kvs dn (ENC vf) kvs) as [src|e0] eqn:Hsrc; cbn [bind] in Henc; [|discriminate].
+        destruct (dict_tree dn src) as [t|e0] eqn:Ht; cbn [bind] in Henc; [|discriminate].
         inversion Henc; subst bits refs; clear Henc.
-        set (vt := compile_field vf ""%string 0 0 1 []
-                     (fun _ _ a => DRet (match a with [(_, e1)] => e1 | _ => ENone end))).
-        destruct (dict_run vf dn vt (fuel - 1) kvs src) as [Hmap Hkeys].
-        { (* every value is parsed back by the value tree *)
-          intros kv b r Hin Henc1 Hwt1.
-          destruct (IHvf ""%string (fun _ => snd kv) b r Hwfv Hwt1 Henc1 0 0 1 []
-                      (fun _ _ a => DRet (match a with [(_, e1)] => e1 | _ => ENone end))
-                      [(0, mkTS ty_ordinary (mkS (b ++ []) (r ++ [])))] [] [] ty_ordinary [] [] (fuel - 1))
-            as (c & ss1 & vals & ws & acc1 & ns1 & Hrun & Hc & _ & _ & _ & _ & Hnames & Hev);
-            try (reflexivity || lia).
-          rewrite !app_nil_r in Hrun. fold vt in Hrun.
-          destruct acc1 as [|[nm1 e1] [|q acc2]]; cbn [map] in Hnames; try discriminate.
-          cbn [app] in Hrun. rewrite run_ret in Hrun by lia.
-          exists ss1. rewrite Hrun. f_equal. f_equal.
-          inversion Hev as [|p l Hp _]; subst. destruct (Hp []) as [He _]. cbn [app fst snd] in He.
-          rewrite app_nil_r in He. apply He. }
-        { exact Hsrc. }
-        { exact Hall. }
-        assert (Hrange : Forall (fun k => (0 <= k < 2 ^ Z.of_nat dn)%Z) (map fst kvs)).
-        { apply Forall_map. eapply Forall_impl; [|exact Hall]. intros kv [H1 _]. exact H1. }
-        assert (Hleaves : leaves_of (canon_kinds (canon_vtree e) dn) [] = map rt_conv src).
-        { apply canon_leaves; [| |exact (asc_sorted dn src _ Hkeys Hasc Hrange)|exact Hpat].
-          - rewrite Hkeys. apply asc_nodup; assumption.
-          - exact (keys_length dn src _ Hkeys). }
-        exists 2, (set_slice ss sid (mkTS ty (mkS tb tr))), [PDict kvs], [1], [(nm, EVar n)], ns.
-        split; [|split; [|split; [|split; [|split; [|split; [|split]]]]]].
-        * rewrite (run_dict_some tbl fuel sid dn vt _ ss env w
-                     (mkTS ty (mkS ([true] ++ tb) ([cell_of (canon_kinds (canon_vtree e) dn) dn] ++ tr)))
-                     (map rt_conv src) (mkS tb tr) kvs);
-            [|lia|exact Hget| |exact Hmap].
-          -- rewrite (run_if tbl _ n 0 _ _ _ _ _ true);
-               [|lia|rewrite <- Hn, nth_middle; reflexivity].
-             cbn [ts_ty List.length]. replace (n + 1) with (S n) by lia.
-             replace (fuel - 1 - 1) with (fuel - 2) by lia. reflexivity.
-          -- cbn [ts_s app]. rewrite <- Hleaves.
-             apply load_dict_valid; [lia|exact Hvok|apply canon_cell_ordinary].
+        destruct (dict_correct vf dn kvs src t (fuel - 1) IHvf Hwfv (conj Hn1 Hn2) ltac:(lia) Hasc Hall Hsrc Ht tb tr)
+          as (leaves & Hload & Hmap).
+        exists 2, (set_slice ss sid (ord (mkS tb tr))), [PDict kvs], [1], [(nm, EVar n)], ns.
+        post_split.
+        * rewrite (run_dict_some tbl fuel sid dn _ _ ss env w
+                     (ord (mkS ([true] ++ tb) ([cell_of t dn] ++ tr))) leaves (mkS tb tr) kvs);
+            [|lia|exact Hget|exact Hload|exact Hmap].
+          rewrite (run_if tbl _ n 0 _ _ _ _ _ true);
+            [|lia|rewrite <- Hn, nth_middle; reflexivity].
+          cbn [ts_ty List.length]. replace (n + 1) with (S n) by lia.
+          replace (fuel - 1 - 1) with (fuel - 2) by lia. reflexivity.
         * lia.
         * apply get_set_same.
         * intros j Hj _. apply get_set_other. exact Hj.
@@ -744,7 +1219,7 @@ Section Correct.
       cbn [need_field] in *. cbn [compile_field]. cbn [wt_field] in Hwt.
       cbn [enc_field ok_bits] in Henc. inversion Henc; subst bits refs; clear Henc.
       exists 0, ss, [], [], [(nm, cval_expr cv)], ns.
-      split; [|split; [|split; [|split; [|split; [|split; [|split]]]]]].
+      post_split.
       + cbn [List.length]. rewrite !app_nil_r, Nat.add_0_r, Nat.sub_0_r. reflexivity.
       + lia.
       + exact Hget.
@@ -753,19 +1228,309 @@ Section Correct.
       + lia.
       + reflexivity.
       + constructor; [|constructor]. intros more. apply entry_const. exact Hwt.
+    - (* FEither *)
+      cbn [need_field] in *. cbn [compile_field]. cbn [wf_fty] in Hwf.
+      apply andb_prop in Hwf. destruct Hwf as [Hwfl Hwfr].
+      cbn [wt_field] in Hwt. cbn [enc_field] in Henc.
+      destruct (ch (look nm)) eqn:Hch.
+      + (* the right alternative *)
+        destruct (ENC fr (look nm)) as [[b r]|e] eqn:Hinner; cbn [bind] in Henc; [|discriminate].
+        inversion Henc; subst bits refs; clear Henc.
+        set (ssA := set_slice ss sid (ord (mkS (b ++ tb) (r ++ tr)))).
+        destruct (IHr nm look c b r Hwfr Hwt Hinner sid (S n) ns acc k ssA (env ++ [PBool true]) (w ++ [1])
+                     tb tr (fuel - 1 - 1) Hctx) as (c1 & ss' & vals & ws & acc' & ns' & Hrun & Hc & Hg & Hfr & Hlen & Hns & Hnames & Hev).
+        { apply get_set_same. }
+        { rewrite app_length. cbn. lia. }
+        { rewrite app_length. cbn. lia. }
+        { exact Hsid. }
+        { lia. }
+        exists (2 + c1), ss', (PBool true :: vals), (1 :: ws), acc', ns'.
+        post_split.
+        * rewrite (run_prim tbl fuel sid OBit _ ss env w _ (PBool true) (mkS (b ++ tb) (r ++ tr)))
+            by (lia || eassumption || reflexivity).
+          rewrite (run_if tbl _ n 0 _ _ _ _ _ true);
+            [|lia|rewrite <- Hn, nth_middle; reflexivity].
+          cbn [ts_ty op_width]. fold ssA. rewrite Hrun. rewrite <- !app_assoc. cbn [List.length app].
+          replace (S n + List.length vals) with (n + S (List.length vals)) by lia.
+          replace (fuel - 1 - 1 - c1) with (fuel - (2 + c1)) by lia. reflexivity.
+        * lia.
+        * exact Hg.
+        * intros j Hj Hlt. rewrite (Hfr j Hj Hlt). unfold ssA. apply get_set_other. exact Hj.
+        * cbn [List.length]. lia.
+        * exact Hns.
+        * exact Hnames.
+        * eapply Forall_impl; [|exact Hev]. intros p Hp more. cbn beta in Hp.
+          specialize (Hp more). rewrite <- !app_assoc in Hp. exact Hp.
+      + (* the left alternative *)
+        destruct (ENC fl (look nm)) as [[b r]|e] eqn:Hinner; cbn [bind] in Henc; [|discriminate].
+        inversion Henc; subst bits refs; clear Henc.
+        set (ssA := set_slice ss sid (ord (mkS (b ++ tb) (r ++ tr)))).
+        destruct (IHl nm look c b r Hwfl Hwt Hinner sid (S n) ns acc k ssA (env ++ [PBool false]) (w ++ [1])
+                     tb tr (fuel - 1 - 1) Hctx) as (c1 & ss' & vals & ws & acc' & ns' & Hrun & Hc & Hg & Hfr & Hlen & Hns & Hnames & Hev).
+        { apply get_set_same. }
+        { rewrite app_length. cbn. lia. }
+        { rewrite app_length. cbn. lia. }
+        { exact Hsid. }
+        { lia. }
+        exists (2 + c1), ss', (PBool false :: vals), (1 :: ws), acc', ns'.
+        post_split.
+        * rewrite (run_prim tbl fuel sid OBit _ ss env w _ (PBool false) (mkS (b ++ tb) (r ++ tr)))
+            by (lia || eassumption || reflexivity).
+          rewrite (run_if tbl _ n 0 _ _ _ _ _ false);
+            [|lia|rewrite <- Hn, nth_middle; reflexivity].
+          cbn [ts_ty op_width]. fold ssA. rewrite Hrun. rewrite <- !app_assoc. cbn [List.length app].
+          replace (S n + List.length vals) with (n + S (List.length vals)) by lia.
+          replace (fuel - 1 - 1 - c1) with (fuel - (2 + c1)) by lia. reflexivity.
+        * lia.
+        * exact Hg.
+        * intros j Hj Hlt. rewrite (Hfr j Hj Hlt). unfold ssA. apply get_set_other. exact Hj.
+        * cbn [List.length]. lia.
+        * exact Hns.
+        * exact Hnames.
+        * eapply Forall_impl; [|exact Hev]. intros p Hp more. cbn beta in Hp.
+          specialize (Hp more). rewrite <- !app_assoc in Hp. exact Hp.
+    - (* FRest: the value is what follows; nothing is consumed *)
+      cbn [need_field] in *. cbn [compile_field]. cbn [wt_field] in Hwt.
+      destruct c as [[tb' tr']|]; [|contradiction]. cbn [ctx_ok] in Hctx. inversion Hctx; subst tb' tr'.
+      rewrite Hwt in Henc. cbn [enc_field] in Henc. inversion Henc; subst bits refs; clear Henc.
+      cbn [app] in Hget.
+      exists 1, ss, [look nm], [1], [(nm, EVar n)], ns.
+      post_split.
+      + rewrite (run_tocell tbl fuel sid _ ss env w _ Hfuel Hget). cbn [ts_ty ts_s s_bits s_refs].
+        rewrite Hwt. cbn [List.length]. replace (n + 1) with (S n) by lia. reflexivity.
+      + lia.
+      + exact Hget.
+      + intros j _ _. reflexivity.
+      + reflexivity.
+      + lia.
+      + reflexivity.
+      + constructor; [|constructor]. intros more. apply entry_var. cbn [app]. subst n.
+        rewrite nth_middle. reflexivity.
+    - (* FHashmap: the root edge inline *)
+      cbn [need_field] in *. cbn [compile_field]. cbn [wt_field] in Hwt. cbn [enc_field] in Henc.
+      cbn [wf_fty] in Hwf. apply andb_prop in Hwf. destruct Hwf as [Hwf Hwfv].
+      apply andb_prop in Hwf. destruct Hwf as [Hn1 Hn2]. apply Nat.leb_le in Hn1. apply Nat.leb_le in Hn2.
+      destruct (look nm) as [z0|b0|bs0|l0|s0| |a0|c0|sl0|cls0 fs0|l0|kvs|l0|l0 ex0|] eqn:Hx; try contradiction.
+      destruct Hwt as (Hne & Hasc & Hall). apply all_of_Forall in Hall.
+      destruct (enc_kvs hn (ENC hvf) kvs) as [src|e0] eqn:Hsrc; cbn [bind] in Henc; [|discriminate].
+      destruct (dict_tree hn src) as [t|e0] eqn:Ht; cbn [bind] in Henc; [|discriminate].
+      destruct (dict_tree_ok hn src t Ht) as (e & Hpat & Hteq & Hvok).
+      set (vt := compile_field hvf ""%string 0 0 1 [] kret).
+      assert (Hvalrun : forall x b r tb1 tr1, WT hvf x None -> ENC hvf x = Ok (b, r) ->
+                exists ss', run tbl (fuel - 1) vt [(0, ord (mkS (b ++ tb1) (r ++ tr1)))] [] [] = Ok (x, ss')
+                            /\ get_slice ss' 0 = Ok (ord (mkS tb1 tr1))).
+      { intros x b r tb1 tr1 Hwt1 Henc1. apply value_run; try assumption. lia. }
+      destruct (dict_run hvf hn vt (fuel - 1) kvs src) as (_ & (kvs3 & Hmap3 & Hstrip) & Hkeys).
+      { intros kv b r Hin Henc1 Hwt1.
+        destruct (Hvalrun (snd kv) b r [] [] Hwt1 Henc1) as (ss' & Hrun & _).
+        rewrite !app_nil_r in Hrun. exists ss'. exact Hrun. }
+      { exact Hsrc. }
+      { exact Hall. }
+      pose proof (dict_leaves hvf hn kvs src e Hkeys Hasc Hall Hpat) as Hleaves. rewrite <- Hteq in Hleaves.
+      destruct (canon_shape e hn) as [(l & kd & v & Hshape)|(l & kd & ta & tb2 & Hshape)];
+        rewrite <- Hteq in Hshape; clear Hteq; subst t.
+      + (* a single pair: the value goes on in the same slice *)
+        cbn [cell_of] in Henc. inversion Henc; subst bits refs; clear Henc.
+        destruct (hashmap_inline_leaf l kd v hn tb tr (conj Hn1 Hn2) Hvok) as (Hhml & Hzero & Hparse).
+        cbn [leaves_of app] in Hleaves.
+        destruct src as [|[k1 p1] [|q src']]; cbn [map] in Hleaves; try discriminate.
+        unfold rt_conv in Hleaves. cbn [fst snd] in Hleaves. inversion Hleaves; subst k1.
+        destruct kvs as [|[kz x] [|q kvs']]; cbn [enc_kvs mapM] in Hsrc.
+        { contradiction Hne. reflexivity. }
+        2:{ unfold enc_kvs in Hsrc. cbn [mapM] in Hsrc.
+            destruct (ENC hvf (snd (kz, x))); cbn [rmap bind] in Hsrc; [|discriminate].
+            destruct (ENC hvf (snd q)); cbn [rmap bind] in Hsrc; [|discriminate].
+            destruct (mapM _ kvs'); cbn [bind] in Hsrc; discriminate. }
+        unfold enc_kvs in Hsrc. cbn [mapM fst snd] in Hsrc.
+        destruct (ENC hvf x) as [[vb vr]|e0] eqn:Hencx; cbn [rmap bind] in Hsrc; [|discriminate].
+        inversion Hsrc; subst p1. clear Hsrc.
+        assert (Hv : v = (vb, vr)).
+        { destruct v as [v1 v2]. cbn [fst snd] in *. congruence. }
+        subst v. cbn [fst snd] in *.
+        apply Forall_inv in Hall. destruct Hall as [Hkz Hwx]. cbn [fst snd] in Hkz, Hwx.
+        destruct (Hvalrun x vb vr tb tr Hwx Hencx) as (ssv & Hrunv & Hgetv).
+        cbn [map] in Hkeys. inversion Hkeys as [Hk1].
+        exists 1, (set_slice ss sid (ord (mkS tb tr))), [PDict [(kz, x)]], [1], [(nm, EVar n)], ns.
+        post_split.
+        * rewrite (run_hashmap tbl fuel sid hn vt _ ss env w _ [(l, mkS (vb ++ tb) (vr ++ tr))]
+                     [(kz, x, ssv)] ltac:(lia) Hget).
+          -- cbn [ts_ty ts_s]. rewrite Hhml. rewrite Hzero. rewrite Hgetv. cbn [ts_s map List.length].
+             replace (n + 1) with (S n) by lia. reflexivity.
+          -- cbn [ts_ty ts_s]. exact Hparse.
+          -- cbn [mapM]. fold vt. rewrite Hrunv. cbn [rmap bind]. rewrite Hk1.
+             rewrite of_bits_enc, Z.mod_small, Z2N.id by lia. reflexivity.
+        * lia.
+        * apply get_set_same.
+        * intros j Hj _. apply get_set_other. exact Hj.
+        * reflexivity.
+        * lia.
+        * reflexivity.
+        * constructor; [|constructor]. intros more. apply entry_var. cbn [app]. subst n.
+          rewrite nth_middle. symmetry. exact Hx.
+      + (* a fork: two references, the slice goes on after the label *)
+        cbn [cell_of] in Henc. inversion Henc; subst bits refs; clear Henc.
+        destruct (hashmap_inline_fork l kd ta tb2 hn tb tr (conj Hn1 Hn2) Hvok) as (Hhml & Hnz & Hparse).
+        exists 1, (set_slice ss sid (ord (mkS tb tr))), [PDict kvs], [1], [(nm, EVar n)], ns.
+        post_split.
+        * rewrite (run_hashmap tbl fuel sid hn vt _ ss env w _ (map rt_conv src) kvs3 ltac:(lia) Hget).
+          -- cbn [ts_ty ts_s]. rewrite Hhml. rewrite Hnz. cbn [s_bits s_refs app skipn]. rewrite Hstrip.
+             cbn [List.length]. replace (n + 1) with (S n) by lia. reflexivity.
+          -- cbn [ts_ty ts_s]. rewrite Hparse. rewrite Hleaves. reflexivity.
+          -- exact Hmap3.
+        * lia.
+        * apply get_set_same.
+        * intros j Hj _. apply get_set_other. exact Hj.
+        * reflexivity.
+        * lia.
+        * reflexivity.
+        * constructor; [|constructor]. intros more. apply entry_var. cbn [app]. subst n.
+          rewrite nth_middle. symmetry. exact Hx.
+    - (* FDictVals: the values of a dictionary with the keys 0, 1, 2, ... *)
+      cbn [need_field] in *. cbn [compile_field]. cbn [wt_field] in Hwt. cbn [enc_field] in Henc.
+      cbn [wf_fty] in Hwf. apply andb_prop in Hwf. destruct Hwf as [Hwf Hwfv].
+      apply andb_prop in Hwf. destruct Hwf as [Hn1 Hn2]. apply Nat.leb_le in Hn1. apply Nat.leb_le in Hn2.
+      destruct (look nm) as [z0|b0|bs0|l0|s0| |a0|c0|sl0|cls0 fs0|vals|l0|l0|l0 ex0|] eqn:Hx; try contradiction.
+      destruct Hwt as (Hlen & Hall).
+      destruct vals as [|v0 vals'].
+      + (* the empty dictionary *)
+        cbn [ok_bits] in Henc. inversion Henc; subst bits refs; clear Henc.
+        exists 2, (set_slice ss sid (ord (mkS tb tr))), [PNone], [1], [(nm, EList [])], ns.
+        post_split.
+        * rewrite (run_dict_empty tbl fuel sid vn _ _ ss env w _ (mkS tb tr)) by (lia || eassumption || reflexivity).
+          rewrite (run_if tbl _ n 0 _ _ _ _ _ false);
+            [|lia|rewrite <- Hn, nth_middle; reflexivity].
+          cbn [ts_ty List.length]. replace (n + 1) with (S n) by lia.
+          replace (fuel - 1 - 1) with (fuel - 2) by lia. reflexivity.
+        * lia.
+        * apply get_set_same.
+        * intros j Hj _. apply get_set_other. exact Hj.
+        * reflexivity.
+        * lia.
+        * reflexivity.
+        * constructor; [|constructor]. intros more. split; cbn [fst snd eval map gnum_e].
+          -- intros _. symmetry. exact Hx.
+          -- rewrite Hx. reflexivity.
+      + set (vals := v0 :: vals') in *.
+        set (kvs := index_kvs 0 vals).
+        assert (Hasc : ascending (map fst kvs) = true).
+        { unfold kvs. rewrite index_kvs_fst. apply seq_ascending. }
+        assert (Hallk : Forall (fun kv => (0 <= fst kv < 2 ^ Z.of_nat vn)%Z /\ WT vvf (snd kv) None) kvs).
+        { apply index_kvs_Forall. intros j x Hj Hin. cbn [fst snd]. split; [lia|].
+          exact (all_of_In _ _ _ Hall Hin). }
+        change (match vals with [] => ok_bits [false] | _ :: _ =>
+                  bind (enc_kvs vn (ENC vvf) (index_kvs 0 vals)) (fun src =>
+                  bind (dict_tree vn src) (fun t => Ok ([true], [cell_of t vn]))) end = Ok (bits, refs)) in Henc.
+        unfold vals at 1 in Henc. fold kvs in Henc.
+        destruct (enc_kvs vn (ENC vvf) kvs) as [src|e0] eqn:Hsrc; cbn [bind] in Henc; [|discriminate].
+        destruct (dict_tree vn src) as [t|e0] eqn:Ht; cbn [bind] in Henc; [|discriminate].
+        inversion Henc; subst bits refs; clear Henc.
+        destruct (dict_correct vvf vn kvs src t (fuel - 1) IHv Hwfv (conj Hn1 Hn2) ltac:(lia) Hasc Hallk Hsrc Ht tb tr)
+          as (leaves & Hload & Hmap).
+        exists 2, (set_slice ss sid (ord (mkS tb tr))), [PDict kvs], [1], [(nm, ESortedValues (EVar n))], ns.
+        post_split.
+        * rewrite (run_dict_some tbl fuel sid vn _ _ ss env w
+                     (ord (mkS ([true] ++ tb) ([cell_of t vn] ++ tr))) leaves (mkS tb tr) kvs);
+            [|lia|exact Hget|exact Hload|exact Hmap].
+          rewrite (run_if tbl _ n 0 _ _ _ _ _ true);
+            [|lia|rewrite <- Hn, nth_middle; reflexivity].
+          cbn [ts_ty List.length]. replace (n + 1) with (S n) by lia.
+          replace (fuel - 1 - 1) with (fuel - 2) by lia. reflexivity.
+        * lia.
+        * apply get_set_same.
+        * intros j Hj _. apply get_set_other. exact Hj.
+        * reflexivity.
+        * lia.
+        * reflexivity.
+        * constructor; [|constructor]. intros more. cbn [app]. subst n.
+          split; cbn [fst snd eval gnum_e].
+          -- intros _. rewrite nth_middle. unfold kvs. rewrite index_kvs_snd. symmetry. exact Hx.
+          -- rewrite Hx. reflexivity.
+    - (* FAugDict: the root edge inline; every node is visited, extra first *)
+      cbn [need_field] in *. cbn [compile_field]. cbn [wt_field] in Hwt. cbn [enc_field] in Henc.
+      cbn [wf_fty] in Hwf. apply andb_prop in Hwf. destruct Hwf as [Hwf Hwfx].
+      apply andb_prop in Hwf. destruct Hwf as [Hwf Hwfv].
+      apply andb_prop in Hwf. destruct Hwf as [Hn1 Hn2]. apply Nat.leb_le in Hn1. apply Nat.leb_le in Hn2.
+      destruct (look nm) as [z0|b0|bs0|l0|s0| |a0|c0|sl0|cls0 fs0|l0|l0|l0|kvs extras|] eqn:Hx; try contradiction.
+      destruct Hwt as (Hne & Hasc & Hall & Hallx). apply all_of_Forall in Hall. apply all_of_Forall in Hallx.
+      destruct (enc_kvs an (ENC avf) kvs) as [src|e0] eqn:Hsrc; cbn [bind] in Henc; [|discriminate].
+      destruct (mapM (ENC axf) extras) as [exs|e0] eqn:Hexs; cbn [bind] in Henc; [|discriminate].
+      destruct (s_patricia (S an) src) as [e|] eqn:Hpat; [|discriminate].
+      destruct (aug_cell e an exs) as [[[cty cb cr] [|fx0 fxr]]|] eqn:Hcell; try discriminate.
+      inversion Henc; subst bits refs; clear Henc.
+      (* the keys *)
+      pose proof (enc_kvs_rel an avf kvs src Hsrc) as Hrel.
+      assert (Hkeys : map fst src = map (enc an) (map fst kvs)).
+      { clear -Hrel. induction Hrel as [|kv sp kl sl [H1 _] _ IH]; [reflexivity|].
+        cbn [map]. f_equal; [exact H1|exact IH]. }
+      assert (Hrange : Forall (fun k => (0 <= k < 2 ^ Z.of_nat an)%Z) (map fst kvs)).
+      { apply Forall_map. eapply Forall_impl; [|exact Hall]. intros kv [H1 _]. exact H1. }
+      assert (Hnd : NoDup (map fst src)) by (rewrite Hkeys; apply asc_nodup; assumption).
+      pose proof (keys_length an src _ Hkeys) as Hklen.
+      pose proof (rt_patricia_wf (S an) an src e (Nat.lt_succ_diag_r an) Hnd Hklen Hpat) as Hewf.
+      (* the nodes of the encoded tree *)
+      pose proof hm_parse_fuel_big as Hbig.
+      destruct (aug_nodes_cell e parse_fuel an [] exs (Cell cty cb cr) [] tb tr Hewf ltac:(lia) Hcell)
+        as (evs0 & evl & Hsem & Hcty & Hnodes). subst cty.
+      pose proof (aug_sem_extras e [] exs _ _ Hsem) as Hexl. rewrite app_nil_r in Hexl.
+      pose proof (aug_sem_leaves e [] exs _ _ Hsem) as Hlv.
+      rewrite (rt_patricia_leaves (S an) an src e [] (Nat.lt_succ_diag_r an) Hnd Hklen Hpat) in Hlv.
+      rewrite (asc_sorted an src _ Hkeys Hasc Hrange), rt_prep_nil in Hlv.
+      (* the nodes, the pairs, the extras side by side *)
+      destruct (aug_zip an avf axf (evs0 ++ [evl]) extras kvs) as (ds & Hds & Hdl & Hdx).
+      { refine (eq_ind_r (fun l0 => Forall2 _ extras l0) _ Hexl).
+        apply Forall2_and_l; [apply mapM_Forall2; exact Hexs|exact Hallx]. }
+      { refine (eq_ind_r (fun l0 => Forall2 _ kvs l0) _ Hlv).
+        pose proof (Forall2_and_l _ _ _ _ Hrel Hall) as H2.
+        eapply Forall2_imp; [|exact H2]. intros kv sp [[H1 H3] [H4 H5]]. repeat split; try assumption; lia. }
+      apply Forall2_app_inv_l in Hds. destruct Hds as (ds0 & dsl & Hds0 & Hdsl & Hdseq).
+      destruct dsl as [|dl [|d2 dsl']];
+        [inversion Hdsl| |inversion Hdsl as [|? ? ? ? _ Hbad]; inversion Hbad].
+      assert (Hrl : ev_rel an avf axf evl dl) by (inversion Hdsl; assumption). clear Hdsl. subst ds.
+      set (vt := compile_field avf ""%string 0 0 1 [] kret). set (xt := compile_field axf ""%string 0 0 1 [] kret).
+      assert (Hmap : mapM (aug_visit_fn tbl (fuel - 1) vt xt)
+                       (map (fun e0 => ev_node e0 [] []) evs0 ++ [ev_node evl tb tr])
+                     = Ok (map (fun dd => (dd, mkS [] [])) ds0 ++ [(dl, mkS tb tr)])).
+      { apply mapM_app.
+        - apply (visits_ok an avf axf (fuel - 1)); try assumption; lia.
+        - cbn [mapM]. unfold vt, xt.
+          rewrite (visit_ok an avf axf evl dl (fuel - 1) tb tr) by (assumption || lia). reflexivity. }
+      set (rs := map (fun dd => (dd, mkS [] [])) ds0 ++ [(dl, mkS tb tr)]) in *.
+      assert (Hres : aug_result (mkS (cb ++ tb) (cr ++ tr)) rs = (PAugDict kvs extras, mkS tb tr)).
+      { unfold aug_result. f_equal.
+        - assert (Hfst : map fst rs = ds0 ++ [dl]).
+          { unfold rs. rewrite map_app, map_map. cbn [map fst]. rewrite map_id. reflexivity. }
+          f_equal.
+          + rewrite <- Hdl. unfold dd_leaves. rewrite <- Hfst. rewrite flat_map_concat_map, flat_map_concat_map.
+            rewrite map_map. reflexivity.
+          + rewrite <- Hdx. rewrite <- Hfst. rewrite map_map. reflexivity.
+        - unfold rs. rewrite map_app. cbn [map snd]. apply last_last. }
+      exists 1, (set_slice ss sid (ord (mkS tb tr))), [PAugDict kvs extras], [1], [(nm, EVar n)], ns.
+      post_split.
+      + rewrite (run_augdict tbl fuel sid an vt xt _ ss env w (mkS (cb ++ tb) (cr ++ tr)) _ rs ltac:(lia) Hget Hnodes Hmap).
+        rewrite Hres. cbn [fst snd List.length]. replace (n + 1) with (S n) by lia. reflexivity.
+      + lia.
+      + apply get_set_same.
+      + intros j Hj _. apply get_set_other. exact Hj.
+      + reflexivity.
+      + lia.
+      + reflexivity.
+      + constructor; [|constructor]. intros more. apply entry_var. cbn [app]. subst n.
+        rewrite nth_middle. symmetry. exact Hx.
+    - (* FAugDictE: no value is well typed *)
+      cbn [wt_field] in Hwt. contradiction.
   Qed.
 
   (* sequencing two segments read from the same sub-slice *)
-  Lemma post_seq t1 k1 k names1 names2 look sid n ns acc ss env w ty tb1 tr1 tb tr fuel b1 b2 :
+  Lemma post_seq t1 k1 k names1 names2 look sid n ns acc ss env w tb1 tr1 tb tr fuel b1 b2 :
     acc_ok look env acc ->
-    post t1 k1 names1 look sid n ns acc ss env w ty tb1 tr1 fuel b1 ->
+    post t1 k1 names1 look sid n ns acc ss env w tb1 tr1 fuel b1 ->
     (forall c ss1 vals1 ws1 acc1 ns1,
-        c <= b1 -> get_slice ss1 sid = Ok (mkTS ty (mkS tb1 tr1)) ->
+        c <= b1 -> get_slice ss1 sid = Ok (ord (mkS tb1 tr1)) ->
         List.length ws1 = List.length vals1 -> ns <= ns1 ->
         map fst acc1 = names1 -> acc_ok look (env ++ vals1) (acc ++ acc1) ->
         post (k1 (n + List.length vals1) ns1 (acc ++ acc1)) k names2 look sid (n + List.length vals1) ns1
-             (acc ++ acc1) ss1 (env ++ vals1) (w ++ ws1) ty tb tr (fuel - c) b2) ->
-    post t1 k (names1 ++ names2) look sid n ns acc ss env w ty tb tr fuel (b1 + b2).
+             (acc ++ acc1) ss1 (env ++ vals1) (w ++ ws1) tb tr (fuel - c) b2) ->
+    post t1 k (names1 ++ names2) look sid n ns acc ss env w tb tr fuel (b1 + b2).
   Proof.
     intros Hacc (c1 & ss1 & vals1 & ws1 & acc1 & ns1 & Hrun1 & Hc1 & Hg1 & Hfr1 & Hlen1 & Hns1 & Hnm1 & Hev1) H2.
     assert (Hacc1 : acc_ok look (env ++ vals1) (acc ++ acc1)).
@@ -776,7 +1541,7 @@ Section Correct.
     destruct (H2 c1 ss1 vals1 ws1 acc1 ns1 Hc1 Hg1 Hlen1 Hns1 Hnm1 Hacc1)
       as (c2 & ss2 & vals2 & ws2 & acc2 & ns2 & Hrun2 & Hc2 & Hg2 & Hfr2 & Hlen2 & Hns2 & Hnm2 & Hev2).
     exists (c1 + c2), ss2, (vals1 ++ vals2), (ws1 ++ ws2), (acc1 ++ acc2), ns2.
-    split; [|split; [|split; [|split; [|split; [|split; [|split]]]]]].
+    post_split.
     - rewrite Hrun1, Hrun2. rewrite <- !app_assoc. rewrite app_length.
       replace (n + List.length vals1 + List.length vals2) with (n + (List.length vals1 + List.length vals2)) by lia.
       replace (fuel - c1 - c2) with (fuel - (c1 + c2)) by lia. reflexivity.
@@ -793,41 +1558,43 @@ Section Correct.
         specialize (Hp more). rewrite <- !app_assoc in Hp. rewrite <- !app_assoc. exact Hp.
   Qed.
 
-  Lemma post_nil k look sid n ns acc ss env w ty tb tr fuel :
-    get_slice ss sid = Ok (mkTS ty (mkS tb tr)) ->
-    post (k n ns acc) k [] look sid n ns acc ss env w ty tb tr fuel 0.
+  Lemma post_nil k look sid n ns acc ss env w tb tr fuel :
+    get_slice ss sid = Ok (ord (mkS tb tr)) ->
+    post (k n ns acc) k [] look sid n ns acc ss env w tb tr fuel 0.
   Proof.
     intros Hget. exists 0, ss, [], [], [], ns.
-    split; [|split; [|split; [|split; [|split; [|split; [|split]]]]]];
-      try (reflexivity || lia || assumption || constructor).
+    post_split; try (reflexivity || lia || assumption || constructor).
     cbn [List.length]. rewrite !app_nil_r, Nat.add_0_r, Nat.sub_0_r. reflexivity.
   Qed.
 
+  Local Notation WTS := (wt_fields ch (wt_type ch st d) (rest_type ch st)).
+  Local Notation ENCS := (enc_fields ch (enc_type ch st d) (rest_type ch st)).
+
   Lemma fields_correct : forall fs look bits refs,
-    forallb (fun p => wf_fty (snd p)) fs = true -> wt_fields (wt_type st d) look fs ->
-    enc_fields (enc_type st d) look fs = Ok (bits, refs) ->
-    forall sid n ns acc k ss env w ty tb tr fuel,
-      get_slice ss sid = Ok (mkTS ty (mkS (bits ++ tb) (refs ++ tr))) ->
+    forallb (fun p => wf_fty (snd p)) fs = true -> WTS look fs ->
+    ENCS look fs = Ok (bits, refs) ->
+    forall sid n ns acc k ss env w tb tr fuel,
+      get_slice ss sid = Ok (ord (mkS (bits ++ tb) (refs ++ tr))) ->
       List.length env = n -> List.length w = n -> sid < ns -> need_fields (need_type st d) fs <= fuel ->
       acc_ok look env acc ->
-      post (compile_fields fs sid n ns acc k) k (map fst fs) look sid n ns acc ss env w ty tb tr fuel
+      post (compile_fields fs sid n ns acc k) k (map fst fs) look sid n ns acc ss env w tb tr fuel
            (need_fields (need_type st d) fs).
   Proof.
     induction fs as [|[nm f] r IH];
-      intros look bits refs Hwf Hwt Henc sid n ns acc k ss env w ty tb tr fuel Hget Hn Hw Hsid Hfuel Hacc.
+      intros look bits refs Hwf Hwt Henc sid n ns acc k ss env w tb tr fuel Hget Hn Hw Hsid Hfuel Hacc.
     - cbn [enc_fields] in Henc. inversion Henc; subst bits refs.
       cbn [compile_fields map need_fields fold_right]. apply post_nil. exact Hget.
     - cbn [enc_fields] in Henc. cbn [forallb snd] in Hwf. apply andb_prop in Hwf. destruct Hwf as [Hwf1 Hwf2].
       cbn [wt_fields] in Hwt. destruct Hwt as [Hwt1 Hwt2].
-      destruct (enc_field (enc_type st d) f (look nm)) as [[b1 r1]|e] eqn:H1; cbn [bind] in Henc; [|discriminate].
-      destruct (enc_fields (enc_type st d) look r) as [[b2 r2]|e] eqn:H2; cbn [bind] in Henc; [|discriminate].
+      destruct (ENC f (look nm)) as [[b1 r1]|e] eqn:H1; cbn [bind] in Henc; [|discriminate].
+      destruct (ENCS look r) as [[b2 r2]|e] eqn:H2; cbn [bind] in Henc; [|discriminate].
       inversion Henc; subst bits refs; clear Henc. rewrite <- !app_assoc in Hget.
       cbn [compile_fields map fst]. change (nm :: map fst r) with ([nm] ++ map fst r).
       change (need_fields (need_type st d) ((nm, f) :: r))
-        with (need_field (need_type st d) f + need_fields (need_type st d) r) in *.
+        with (NEED f + need_fields (need_type st d) r) in *.
       eapply post_seq.
       + exact Hacc.
-      + eapply field_correct; try eassumption. lia.
+      + eapply (field_correct f); try eassumption; [exact I|lia].
       + intros c ss1 vals1 ws1 acc1 ns1 Hc Hg1 Hlen1 Hns1 Hnm1 Hacc1.
         eapply IH; try eassumption; try (rewrite app_length; lia); lia.
   Qed.
@@ -838,6 +1605,9 @@ Section Correct.
     apply andb_prop in H. destruct H as [H1 H2]. apply eqb_prop in H1. subst y. f_equal. apply IH. exact H2.
   Qed.
 
+  Lemma list_beq_refl a : list_beq a a = true.
+  Proof. induction a as [|x a IH]; [reflexivity|]. cbn [list_beq]. rewrite eqb_reflx, IH. reflexivity. Qed.
+
   Lemma load_uint_raw bits tb r n : bits <> [] -> List.length bits = n ->
     s_load_uint (mkS (bits ++ tb) r) n = Ok (Z.of_N (of_bits bits), mkS tb r).
   Proof.
@@ -847,17 +1617,17 @@ Section Correct.
   Qed.
 
   (* a run of constant bits read at once: what the bit tests see is what was encoded *)
-  Lemma chunk_load c bits k sid ss env w ty tb tr fuel :
-    chunk_ok c bits = true -> get_slice ss sid = Ok (mkTS ty (mkS (bits ++ tb) tr)) -> 1 <= fuel ->
+  Lemma chunk_load c bits k sid ss env w tb tr fuel :
+    chunk_ok c bits = true -> get_slice ss sid = Ok (ord (mkS (bits ++ tb) tr)) -> 1 <= fuel ->
     exists val,
       run tbl fuel (DOp sid (chunk_op c) k) ss env w
-      = run tbl (fuel - 1) k (set_slice ss sid (mkTS ty (mkS tb tr))) (env ++ [val]) (w ++ [chunk_width c])
+      = run tbl (fuel - 1) k (set_slice ss sid (ord (mkS tb tr))) (env ++ [val]) (w ++ [chunk_width c])
       /\ bits_of_pv val (chunk_width c) = bits.
   Proof.
     unfold chunk_ok. intros Hok Hget Hfuel.
     apply andb_prop in Hok. destruct Hok as [Hok Hview]. apply andb_prop in Hok. destruct Hok as [Hw1 Hlen].
     apply list_beq_eq in Hview. apply Nat.leb_le in Hw1. apply Nat.eqb_eq in Hlen.
-    destruct c as [n|n|k0]; cbn [chunk_op chunk_width chunk_view] in *.
+    destruct c as [n|n|k0|]; cbn [chunk_op chunk_width chunk_view] in *.
     - exists (PBits bits). split; [|reflexivity].
       rewrite (run_prim tbl fuel sid (OBits n) k ss env w _ (PBits bits) (mkS tb tr) Hfuel Hget).
       + reflexivity.
@@ -873,6 +1643,9 @@ Section Correct.
       + reflexivity.
       + cbn [prim_load ts_s]. unfold s_load_bytes, s_preload_bytes.
         rewrite s_skip_app by lia. cbn [bind s_bits]. rewrite firstn_app_exact by lia. reflexivity.
+    - destruct bits as [|x [|y bits']]; cbn [List.length] in Hlen; try lia.
+      exists (PBool x). split; [|reflexivity].
+      rewrite (run_prim tbl fuel sid OBit k ss env w _ (PBool x) (mkS tb tr) Hfuel Hget); reflexivity.
   Qed.
 
   Lemma check_bits_ok : forall bits pre v i t ss env w fuel,
@@ -948,41 +1721,47 @@ Section Correct.
     = compile_item it sid n ns acc (fun n' ns' acc' => compile_items r sid n' ns' acc' k).
   Proof. destruct it; reflexivity. Qed.
 
-  Lemma item_correct it look bits refs :
-    wf_item it = true -> wt_item (wt_type st d) look it ->
-    enc_item (enc_type st d) look it = Ok (bits, refs) ->
-    forall sid n ns acc k ss env w ty tb tr fuel,
-      get_slice ss sid = Ok (mkTS ty (mkS (bits ++ tb) (refs ++ tr))) ->
+  Local Notation WTI := (wt_item ch (wt_type ch st d) (rest_type ch st)).
+  Local Notation ENCI := (enc_item ch (enc_type ch st d) (rest_type ch st)).
+  Local Notation WTIS := (wt_items ch (wt_type ch st d) (rest_type ch st)).
+  Local Notation ENCIS := (enc_items ch (enc_type ch st d) (rest_type ch st)).
+
+  Lemma item_correct it look c bits refs :
+    wf_item it = true -> WTI look c it ->
+    ENCI look it = Ok (bits, refs) ->
+    forall sid n ns acc k ss env w tb tr fuel,
+      ctx_ok c tb tr ->
+      get_slice ss sid = Ok (ord (mkS (bits ++ tb) (refs ++ tr))) ->
       List.length env = n -> List.length w = n -> sid < ns -> need_item (need_type st d) it <= fuel ->
       acc_ok look env acc ->
       match it with IGuard _ a b => gref_bound (map fst acc) a && gref_bound (map fst acc) b | _ => true end
       = true ->
-      post (compile_item it sid n ns acc k) k (item_names it) look sid n ns acc ss env w ty tb tr fuel
+      post (compile_item it sid n ns acc k) k (item_names it) look sid n ns acc ss env w tb tr fuel
            (need_item (need_type st d) it).
   Proof.
-    intros Hwf Hwt Henc sid n ns acc k ss env w ty tb tr fuel Hget Hn Hw Hsid Hfuel Hacc Hbound.
-    destruct it as [nm f|fs|c cbits|nm hexnm wd|op ga gb];
+    intros Hwf Hwt Henc sid n ns acc k ss env w tb tr fuel Hctx Hget Hn Hw Hsid Hfuel Hacc Hbound.
+    destruct it as [nm f|fs|c0 cbits|nm hexnm wd|op ga gb];
       cbn [wf_item wt_item enc_item compile_item item_names need_item] in *.
-    - eapply field_correct; eassumption.
-    - destruct (enc_fields (enc_type st d) look fs) as [[b r]|e] eqn:Hinner; cbn [bind] in Henc; [|discriminate].
+    - eapply (field_correct f); eassumption.
+    - destruct (ENCS look fs) as [[b r]|e] eqn:Hinner; cbn [bind] in Henc; [|discriminate].
       inversion Henc; subst bits refs; clear Henc.
-      set (ssA := set_slice (set_slice ss sid (mkTS ty (mkS tb tr))) ns (mkTS ty_ordinary (mkS b r))).
+      set (ssA := set_slice (set_slice ss sid (ord (mkS tb tr))) ns (ord (mkS b r))).
       destruct (fields_correct fs look b r Hwf Hwt Hinner ns (S n) (S ns) acc k ssA
-                  (env ++ [PCell (Cell ty_ordinary b r)]) (w ++ [1]) ty_ordinary [] [] (fuel - 1))
-        as (c & ss' & vals & ws & acc' & ns' & Hrun & Hc & Hg & Hfr & Hlen & Hns & Hnames & Hev).
+                  (env ++ [PCell (Cell ty_ordinary b r)]) (w ++ [1]) [] [] (fuel - 1))
+        as (c1 & ss' & vals & ws & acc' & ns' & Hrun & Hc & Hg & Hfr & Hlen & Hns & Hnames & Hev).
       { rewrite !app_nil_r. apply get_set_same. }
       { rewrite app_length. cbn. lia. }
       { rewrite app_length. cbn. lia. }
       { lia. }
       { lia. }
       { apply acc_ok_ext. exact Hacc. }
-      exists (1 + c), ss', (PCell (Cell ty_ordinary b r) :: vals), (1 :: ws), acc', ns'.
-      split; [|split; [|split; [|split; [|split; [|split; [|split]]]]]].
+      exists (1 + c1), ss', (PCell (Cell ty_ordinary b r) :: vals), (1 :: ws), acc', ns'.
+      post_split.
       + rewrite (run_ref tbl fuel sid ns _ ss env w _ (Cell ty_ordinary b r) (mkS tb tr))
           by (lia || eassumption || reflexivity).
         cbn [ts_ty cell_slice]. fold ssA. rewrite Hrun. rewrite <- !app_assoc. cbn [List.length app].
         replace (S n + List.length vals) with (n + S (List.length vals)) by lia.
-        replace (fuel - 1 - c) with (fuel - (1 + c)) by lia. reflexivity.
+        replace (fuel - 1 - c1) with (fuel - (1 + c1)) by lia. reflexivity.
       + lia.
       + rewrite Hfr by lia. unfold ssA. rewrite get_set_other by lia. apply get_set_same.
       + intros j Hj Hlt. rewrite Hfr by lia. unfold ssA. rewrite get_set_other by lia.
@@ -993,11 +1772,11 @@ Section Correct.
       + eapply Forall_impl; [|exact Hev]. intros p Hp more. cbn beta in Hp.
         specialize (Hp more). rewrite <- !app_assoc in Hp. exact Hp.
     - cbn [ok_bits] in Henc. inversion Henc; subst bits refs; clear Henc. cbn [app] in Hget.
-      destruct (chunk_load c cbits (check_bits n 0 cbits (k (S n) ns acc)) sid ss env w ty tb tr fuel Hwf Hget)
+      destruct (chunk_load c0 cbits (check_bits n 0 cbits (k (S n) ns acc)) sid ss env w tb tr fuel Hwf Hget)
         as (val & Hrun & Hview); [lia|].
-      exists (S (List.length cbits)), (set_slice ss sid (mkTS ty (mkS tb tr))), [val], [chunk_width c], [], ns.
-      split; [|split; [|split; [|split; [|split; [|split; [|split]]]]]].
-      + rewrite Hrun. rewrite (check_bits_ok cbits [] n 0 _ _ (env ++ [val]) (w ++ [chunk_width c]) (fuel - 1)).
+      exists (S (List.length cbits)), (set_slice ss sid (ord (mkS tb tr))), [val], [chunk_width c0], [], ns.
+      post_split.
+      + rewrite Hrun. rewrite (check_bits_ok cbits [] n 0 _ _ (env ++ [val]) (w ++ [chunk_width c0]) (fuel - 1)).
         * cbn [List.length]. rewrite app_nil_r. replace (n + 1) with (S n) by lia.
           replace (fuel - 1 - List.length cbits) with (fuel - S (List.length cbits)) by lia. reflexivity.
         * rewrite <- Hn at 1. rewrite <- Hw. rewrite !nth_middle. exact Hview.
@@ -1011,12 +1790,12 @@ Section Correct.
       + reflexivity.
       + constructor.
     - (* INamedHex *)
-      destruct (look nm) as [z0|b0|bs|l0|s0| |a0|c0|sl0|cls0 fs0|l0|l0|l0|l0 ex0|] eqn:Hx; try contradiction.
+      destruct (look nm) as [z0|b0|bs|l0|s0| |a0|c1|sl0|cls0 fs0|l0|l0|l0|l0 ex0|] eqn:Hx; try contradiction.
       destruct Hwt as (Hlen & Hokb & Hhex).
       cbn [ok_bits] in Henc. inversion Henc; subst bits refs; clear Henc.
-      exists 1, (set_slice ss sid (mkTS ty (mkS tb tr))), [PBytes bs], [8 * wd],
+      exists 1, (set_slice ss sid (ord (mkS tb tr))), [PBytes bs], [8 * wd],
              [(nm, EVar n); (hexnm, EHex (EVar n))], ns.
-      split; [|split; [|split; [|split; [|split; [|split; [|split]]]]]].
+      post_split.
       + rewrite (run_prim tbl fuel sid (OBytes wd) _ ss env w _ (PBytes bs) (mkS tb tr) Hfuel Hget).
         * cbn [ts_ty List.length op_width]. replace (n + 1) with (S n) by lia. reflexivity.
         * cbn [prim_load ts_s app].
@@ -1034,7 +1813,7 @@ Section Correct.
       cbn [ok_bits] in Henc. inversion Henc; subst bits refs; clear Henc.
       apply andb_prop in Hbound. destruct Hbound as [Hba Hbb].
       exists 1, ss, [], [], [], ns.
-      split; [|split; [|split; [|split; [|split; [|split; [|split]]]]]].
+      post_split.
       + rewrite (run_guard fuel op _ _ DFail _ ss env w Hfuel).
         * cbn [List.length]. rewrite !app_nil_r, Nat.add_0_r. reflexivity.
         * rewrite (gexpr_num look env acc ga Hacc Hba), (gexpr_num look env acc gb Hacc Hbb).
@@ -1048,25 +1827,26 @@ Section Correct.
       + constructor.
   Qed.
 
-  Lemma items_correct : forall its look bits refs,
-    forallb wf_item its = true -> wt_items (wt_type st d) look its ->
-    enc_items (enc_type st d) look its = Ok (bits, refs) ->
-    forall sid n ns acc k ss env w ty tb tr fuel,
-      get_slice ss sid = Ok (mkTS ty (mkS (bits ++ tb) (refs ++ tr))) ->
+  Lemma items_correct : forall its look c bits refs,
+    forallb wf_item its = true -> WTIS look c its ->
+    ENCIS look its = Ok (bits, refs) ->
+    forall sid n ns acc k ss env w tb tr fuel,
+      ctx_ok c tb tr ->
+      get_slice ss sid = Ok (ord (mkS (bits ++ tb) (refs ++ tr))) ->
       List.length env = n -> List.length w = n -> sid < ns -> need_items (need_type st d) its <= fuel ->
       acc_ok look env acc -> guards_bound (map fst acc) its = true ->
-      post (compile_items its sid n ns acc k) k (items_names its) look sid n ns acc ss env w ty tb tr fuel
+      post (compile_items its sid n ns acc k) k (items_names its) look sid n ns acc ss env w tb tr fuel
            (need_items (need_type st d) its).
   Proof.
     induction its as [|it r IH];
-      intros look bits refs Hwf Hwt Henc sid n ns acc k ss env w ty tb tr fuel Hget Hn Hw Hsid Hfuel
+      intros look c bits refs Hwf Hwt Henc sid n ns acc k ss env w tb tr fuel Hctx Hget Hn Hw Hsid Hfuel
              Hacc Hgb.
     - cbn [enc_items] in Henc. inversion Henc; subst bits refs.
       cbn [compile_items items_names flat_map need_items fold_right]. apply post_nil. exact Hget.
     - cbn [enc_items] in Henc. cbn [forallb] in Hwf. apply andb_prop in Hwf. destruct Hwf as [Hwf1 Hwf2].
       cbn [wt_items] in Hwt. destruct Hwt as [Hwt1 Hwt2].
-      destruct (enc_item (enc_type st d) look it) as [[b1 r1]|e] eqn:H1; cbn [bind] in Henc; [|discriminate].
-      destruct (enc_items (enc_type st d) look r) as [[b2 r2]|e] eqn:H2; cbn [bind] in Henc; [|discriminate].
+      destruct (ENCI look it) as [[b1 r1]|e] eqn:H1; cbn [bind] in Henc; [|discriminate].
+      destruct (ENCIS look r) as [[b2 r2]|e] eqn:H2; cbn [bind] in Henc; [|discriminate].
       inversion Henc; subst bits refs; clear Henc. rewrite <- !app_assoc in Hget.
       rewrite compile_items_cons.
       change (items_names (it :: r)) with (item_names it ++ items_names r).
@@ -1075,8 +1855,10 @@ Section Correct.
       cbn [guards_bound] in Hgb. apply andb_prop in Hgb. destruct Hgb as [Hgb1 Hgb2].
       eapply post_seq.
       + exact Hacc.
-      + eapply item_correct; try eassumption. lia.
-      + intros c ss1 vals1 ws1 acc1 ns1 Hc Hg1 Hlen1 Hns1 Hnm1 Hacc1.
+      + eapply (item_correct it look (match r with [] => c | _ => None end)); try eassumption; [|lia].
+        destruct r as [|it2 r']; [|exact I].
+        cbn [enc_items] in H2. inversion H2; subst b2 r2. exact Hctx.
+      + intros c1 ss1 vals1 ws1 acc1 ns1 Hc Hg1 Hlen1 Hns1 Hnm1 Hacc1.
         eapply IH; try eassumption; try (rewrite app_length; lia); try lia.
         rewrite map_app, Hnm1. exact Hgb2.
   Qed.
@@ -1106,44 +1888,61 @@ Section Correct.
     cbn [map fst snd] in *. rewrite Hp, IH. reflexivity.
   Qed.
 
-  Lemma ctor_correct c v bits refs :
+  (* the snapshot attribute, when the layout has one, is variable 0 *)
+  Definition snap_list (snap : option string) : list (string * dexpr) :=
+    match snap with Some nm => [(nm, EVar 0)] | None => [] end.
+  Definition snap_bound (snap : option string) (v : pv) (env : list pv) : Prop :=
+    match snap with Some nm => nth 0 env PNone = field_of v nm /\ 1 <= List.length env | None => True end.
+
+  Lemma ctor_correct snap c v cx bits refs :
     forallb wf_item (c_items c) = true -> guards_bound [] (c_items c) = true ->
     (c_ret c = RNone -> c_items c = []) ->
-    (c_ret c = RSame -> exists nm f, c_items c = [INamed nm f]) ->
-    ctor_matches c v = true -> wt_ctor (wt_type st d) c v ->
-    enc_items (enc_type st d) (ctor_look c v) (c_items c) = Ok (bits, refs) ->
-    forall env w ty tb tr fuel, List.length w = List.length env -> need_ctor (need_type st d) c <= fuel ->
-      finishes (compile_ctor c (List.length env)) [(0, mkTS ty (mkS (bits ++ tb) (refs ++ tr)))] env w fuel v
-               (mkTS ty (mkS tb tr)).
+    (match c_ret c with RSame | RSameCls _ => True | _ => False end -> exists nm f, c_items c = [INamed nm f]) ->
+    (match snap, c_ret c with Some _, RObj _ _ | None, _ => True | _, _ => False end) ->
+    ctor_matches c v = true -> wt_ctor ch (wt_type ch st d) (rest_type ch st) snap c cx v ->
+    ENCIS (ctor_look c v) (c_items c) = Ok (bits, refs) ->
+    forall env w tb tr fuel, ctx_ok cx tb tr -> List.length w = List.length env ->
+      need_ctor (need_type st d) c <= fuel -> snap_bound snap v env ->
+      finishes (compile_ctor (snap_list snap) c (List.length env))
+               [(0, ord (mkS (bits ++ tb) (refs ++ tr)))] env w fuel v (ord (mkS tb tr)).
   Proof.
-    intros Hwf Hgb Hnone Hsame Hmatch [Hshape Hwt] Henc env w ty tb tr fuel Hw Hfuel.
+    intros Hwf Hgb Hnone Hsame Hsnapret Hmatch [Hshape Hwt] Henc env w tb tr fuel Hctx Hw Hfuel Hsb.
     unfold need_ctor in Hfuel. unfold compile_ctor.
-    destruct (items_correct (c_items c) (ctor_look c v) bits refs Hwf Hwt Henc 0 (List.length env) 1 []
-                (fun _ _ acc => DRet (ret_expr (c_ret c) acc))
-                [(0, mkTS ty (mkS (bits ++ tb) (refs ++ tr)))] env w ty tb tr fuel)
+    destruct (items_correct (c_items c) (ctor_look c v) cx bits refs Hwf Hwt Henc 0 (List.length env) 1 []
+                (fun _ _ acc => DRet (ret_expr (c_ret c) (snap_list snap) acc))
+                [(0, ord (mkS (bits ++ tb) (refs ++ tr)))] env w tb tr fuel)
       as (c0 & ss' & vals & ws & acc' & ns' & Hrun & Hc & Hg & Hfr & Hlen & Hns & Hnames & Hev);
       try (reflexivity || lia || assumption || constructor).
     exists ss'. split; [|exact Hg].
     rewrite Hrun. rewrite run_ret by lia. f_equal. f_equal. cbn [app].
     set (leaf := match get_slice ss' 0 with Ok s => PSlice (ts_s s) | Err _ => PNone end).
-    unfold ctor_look in Hev. destruct (c_ret c) as [cls consts| |] eqn:Hret.
+    unfold ctor_look in Hev. destruct (c_ret c) as [cls consts| | |cls] eqn:Hret.
     - cbn [ret_expr eval].
       rewrite (map_eval_look (field_of v)).
-      + rewrite sort_names_fst. rewrite map_app, Hnames.
+      + rewrite sort_names_fst. rewrite !map_app, Hnames.
         replace (map fst (map (fun '(nm, cv) => (nm, cval_expr cv)) consts)) with (map fst consts).
-        * symmetry. exact Hshape.
+        * replace (map fst (snap_list snap)) with (snap_names snap) by (destruct snap; reflexivity).
+          symmetry. exact Hshape.
         * rewrite map_map. apply map_ext. intros [nm cv]. reflexivity.
-      + apply sort_Forall. apply Forall_app. split.
+      + apply sort_Forall. apply Forall_app. split; [|apply Forall_app; split].
         * unfold ctor_matches in Hmatch. rewrite Hret in Hmatch.
           destruct v as [| | | | | | | | |cls' fs| | | | |]; try discriminate.
           apply andb_prop in Hmatch. destruct Hmatch as [_ Hconsts].
           rewrite forallb_forall in Hconsts. apply Forall_forall. intros [nm e] Hin.
           apply in_map_iff in Hin. destruct Hin as ([nm' cv] & Heq & Hin). inversion Heq; subst nm e.
           cbn [fst snd field_of]. apply cval_match_eq. exact (Hconsts _ Hin).
+        * destruct snap as [snm|]; cbn [snap_list]; [|constructor].
+          constructor; [|constructor]. cbn [fst snd eval]. destruct Hsb as [Hsb Hlen0].
+          rewrite app_nth1 by lia. exact Hsb.
         * eapply Forall_impl; [|exact Hev]. intros p Hp. cbn beta in Hp.
           destruct (Hp []) as [He _]. rewrite app_nil_r in He. apply He.
     - cbn [ret_expr eval]. symmetry. exact Hshape.
-    - destruct (Hsame eq_refl) as (nm & f & Hits). rewrite Hits in Hnames.
+    - destruct (Hsame I) as (nm & f & Hits). rewrite Hits in Hnames.
+      cbn [items_names flat_map item_names app] in Hnames.
+      destruct acc' as [|[nm' e] [|q acc'']]; cbn [map] in Hnames; try discriminate.
+      cbn [ret_expr]. inversion Hev as [|p l Hp _]; subst.
+      destruct (Hp []) as [He _]. rewrite app_nil_r in He. cbn [fst snd] in He. apply He.
+    - destruct (Hsame I) as (nm & f & Hits). rewrite Hits in Hnames.
       cbn [items_names flat_map item_names app] in Hnames.
       destruct acc' as [|[nm' e] [|q acc'']]; cbn [map] in Hnames; try discriminate.
       cbn [ret_expr]. inversion Hev as [|p l Hp _]; subst.
@@ -1175,87 +1974,449 @@ Section Correct.
     cbn in Hfd. discriminate.
   Qed.
 
-  Lemma trie_bits_correct : forall fuel cs t c,
-    trie_ok fuel cs = true -> In (t, c) cs ->
-    forall env w ty b r rfuel needc v fin,
-      List.length w = List.length env -> 2 * List.length t + needc <= rfuel ->
-      (forall env' w' rf, List.length w' = List.length env' -> needc <= rf ->
-         finishes (compile_ctor c (List.length env')) [(0, mkTS ty (mkS b r))] env' w' rf v fin) ->
-      finishes (trie_bits fuel cs (List.length env)) [(0, mkTS ty (mkS (t ++ b) r))] env w rfuel v fin.
+  Lemma trie_ok_sub fuel cs x : cs <> [] -> trie_ok (S fuel) cs = true -> find_done cs = None ->
+    trie_ok fuel (sub_tags x cs) = true.
   Proof.
-    induction fuel as [|f IH]; intros cs t c Hok Hin env w ty b r rfuel needc v fin Hw Hfuel Hbody;
-      [discriminate|].
-    destruct (find_done cs) as [c'|] eqn:Hfd.
-    - pose proof (trie_done_single f cs t c c' Hok Hin Hfd) as ->.
-      destruct Hin as [Heq|[]]. inversion Heq; subst t.
-      cbn [trie_bits find_done find]. cbn [app]. apply Hbody; [exact Hw|lia].
-    - destruct t as [|x t]; [exfalso; exact (find_done_none cs c Hfd Hin)|].
-      destruct cs as [|p cs']; [contradiction|]. remember (p :: cs') as cs eqn:Hcs.
-      assert (Hok' : trie_ok f (sub_tags false cs) && trie_ok f (sub_tags true cs) = true).
-      { rewrite Hcs in Hok. cbn [trie_ok] in Hok. rewrite <- Hcs in Hok. rewrite Hfd in Hok. exact Hok. }
-      apply andb_prop in Hok'. destruct Hok' as [Hok0 Hok1].
-      assert (Htree : trie_bits (S f) cs (List.length env)
-                      = DOp 0 OBit (DIf (List.length env) 0
-                                      (trie_bits f (sub_tags false cs) (S (List.length env)))
-                                      (trie_bits f (sub_tags true cs) (S (List.length env))))).
-      { rewrite Hcs. cbn [trie_bits]. rewrite <- Hcs. rewrite Hfd. reflexivity. }
-      rewrite Htree. clear Htree. cbn [List.length app] in *.
-      assert (Hrec : finishes (trie_bits f (sub_tags x cs) (List.length (env ++ [PBool x])))
-                       [(0, mkTS ty (mkS (t ++ b) r))] (env ++ [PBool x]) (w ++ [1]) (rfuel - 1 - 1) v fin).
-      { apply (IH (sub_tags x cs) t c) with (needc := needc).
-        - destruct x; assumption.
-        - apply in_sub_tags. exact Hin.
-        - rewrite !app_length. cbn. lia.
-        - lia.
-        - exact Hbody. }
-      destruct Hrec as (ss' & Hrun & Hget). exists ss'. split; [|exact Hget].
-      rewrite (run_prim tbl rfuel 0 OBit _ _ env w (mkTS ty (mkS (x :: t ++ b) r)) (PBool x) (mkS (t ++ b) r))
-        by (lia || reflexivity).
-      rewrite (run_if tbl _ (List.length env) 0 _ _ _ _ _ x);
-        [|lia|rewrite nth_middle; reflexivity].
-      rewrite app_length in Hrun. cbn [List.length] in Hrun. rewrite Nat.add_1_r in Hrun.
-      destruct x; exact Hrun.
+    intros Hne Hok Hfd. destruct cs as [|p cs']; [contradiction|].
+    cbn [trie_ok] in Hok. rewrite Hfd in Hok. apply andb_prop in Hok. destruct x; apply Hok.
   Qed.
 
-  Lemma trie_chunk_correct : forall fuel cs t c,
-    trie_ok fuel cs = true -> In (t, c) cs ->
-    forall pre vidx ss env w rfuel needc v fin,
-      bits_of_pv (nth vidx env PNone) (nth vidx w 1) = pre ++ t ->
-      List.length t + needc <= rfuel ->
-      (forall rf, needc <= rf -> finishes (compile_ctor c (S vidx)) ss env w rf v fin) ->
-      finishes (trie_chunk fuel cs vidx (List.length pre)) ss env w rfuel v fin.
-  Proof.
-    induction fuel as [|f IH]; intros cs t c Hok Hin pre vidx ss env w rfuel needc v fin Hbits Hfuel Hbody;
-      [discriminate|].
-    destruct (find_done cs) as [c'|] eqn:Hfd.
-    - pose proof (trie_done_single f cs t c c' Hok Hin Hfd) as ->.
-      destruct Hin as [Heq|[]]. inversion Heq; subst t.
-      cbn [trie_chunk find_done find]. apply Hbody. lia.
-    - destruct t as [|x t]; [exfalso; exact (find_done_none cs c Hfd Hin)|].
-      destruct cs as [|p cs']; [contradiction|]. remember (p :: cs') as cs eqn:Hcs.
-      assert (Hok' : trie_ok f (sub_tags false cs) && trie_ok f (sub_tags true cs) = true).
-      { rewrite Hcs in Hok. cbn [trie_ok] in Hok. rewrite <- Hcs in Hok. rewrite Hfd in Hok. exact Hok. }
-      apply andb_prop in Hok'. destruct Hok' as [Hok0 Hok1].
-      assert (Htree : trie_chunk (S f) cs vidx (List.length pre)
-                      = DIf vidx (List.length pre)
-                          (trie_chunk f (sub_tags false cs) vidx (S (List.length pre)))
-                          (trie_chunk f (sub_tags true cs) vidx (S (List.length pre)))).
-      { rewrite Hcs. cbn [trie_chunk]. rewrite <- Hcs. rewrite Hfd. reflexivity. }
-      rewrite Htree. clear Htree. cbn [List.length] in *.
-      assert (Hrec : finishes (trie_chunk f (sub_tags x cs) vidx (List.length (pre ++ [x])))
-                       ss env w (rfuel - 1) v fin).
-      { apply (IH (sub_tags x cs) t c) with (needc := needc).
-        - destruct x; assumption.
-        - apply in_sub_tags. exact Hin.
-        - rewrite <- app_assoc. exact Hbits.
-        - lia.
-        - exact Hbody. }
-      destruct Hrec as (ss' & Hrun & Hget). exists ss'. split; [|exact Hget].
-      rewrite (run_if tbl rfuel vidx (List.length pre) _ _ ss env w x);
-        [|lia|rewrite Hbits; apply nth_middle].
-      rewrite app_length in Hrun. cbn [List.length] in Hrun. rewrite Nat.add_1_r in Hrun.
-      destruct x; exact Hrun.
-  Qed.
+  Section Tries.
+    Variable snap : list (string * dexpr).
+
+    (* the body of the constructor runs in any environment extending the current one *)
+    Definition body_ok (c : ctor) (env : list pv) (w : list nat) (b : list bool) (r : list cell)
+        (needc : nat) (v : pv) (fin : tslice) : Prop :=
+      forall more wmore rf, List.length wmore = List.length more -> needc <= rf ->
+        finishes (compile_ctor snap c (List.length (env ++ more))) [(0, ord (mkS b r))]
+                 (env ++ more) (w ++ wmore) rf v fin.
+
+    Lemma body_ok_ext c env w b r needc v fin x wx : List.length wx = List.length x ->
+      body_ok c env w b r needc v fin -> body_ok c (env ++ x) (w ++ wx) b r needc v fin.
+    Proof.
+      intros Hl H more wmore rf Hlen Hrf. rewrite <- !app_assoc. apply H; [|exact Hrf].
+      rewrite !app_length. lia.
+    Qed.
+
+    Lemma trie_bits_correct : forall fuel cs t c,
+      trie_ok fuel cs = true -> In (t, c) cs ->
+      forall env w b r rfuel needc v fin,
+        List.length w = List.length env -> 2 * List.length t + needc <= rfuel ->
+        body_ok c env w b r needc v fin ->
+        finishes (trie_bits snap fuel cs (List.length env)) [(0, ord (mkS (t ++ b) r))] env w rfuel v fin.
+    Proof.
+      induction fuel as [|f IH]; intros cs t c Hok Hin env w b r rfuel needc v fin Hw Hfuel Hbody;
+        [discriminate|].
+      destruct (find_done cs) as [c'|] eqn:Hfd.
+      - pose proof (trie_done_single f cs t c c' Hok Hin Hfd) as ->.
+        destruct Hin as [Heq|[]]. inversion Heq; subst t.
+        cbn [trie_bits find_done find]. cbn [app].
+        specialize (Hbody [] [] rfuel eq_refl). rewrite !app_nil_r in Hbody. apply Hbody. lia.
+      - destruct t as [|x t]; [exfalso; exact (find_done_none cs c Hfd Hin)|].
+        destruct cs as [|p cs']; [contradiction|]. remember (p :: cs') as cs eqn:Hcs.
+        assert (Hok' : trie_ok f (sub_tags false cs) && trie_ok f (sub_tags true cs) = true).
+        { rewrite Hcs in Hok. cbn [trie_ok] in Hok. rewrite <- Hcs in Hok. rewrite Hfd in Hok. exact Hok. }
+        apply andb_prop in Hok'. destruct Hok' as [Hok0 Hok1].
+        assert (Htree : trie_bits snap (S f) cs (List.length env)
+                        = DOp 0 OBit (DIf (List.length env) 0
+                                        (trie_bits snap f (sub_tags false cs) (S (List.length env)))
+                                        (trie_bits snap f (sub_tags true cs) (S (List.length env))))).
+        { rewrite Hcs. cbn [trie_bits]. rewrite <- Hcs. rewrite Hfd. reflexivity. }
+        rewrite Htree. clear Htree. cbn [List.length app] in *.
+        assert (Hrec : finishes (trie_bits snap f (sub_tags x cs) (List.length (env ++ [PBool x])))
+                         [(0, ord (mkS (t ++ b) r))] (env ++ [PBool x]) (w ++ [1]) (rfuel - 1 - 1) v fin).
+        { apply (IH (sub_tags x cs) t c) with (needc := needc).
+          - destruct x; assumption.
+          - apply in_sub_tags. exact Hin.
+          - rewrite !app_length. cbn. lia.
+          - lia.
+          - apply body_ok_ext; [reflexivity|exact Hbody]. }
+        destruct Hrec as (ss' & Hrun & Hget). exists ss'. split; [|exact Hget].
+        rewrite (run_prim tbl rfuel 0 OBit _ _ env w (ord (mkS (x :: t ++ b) r)) (PBool x) (mkS (t ++ b) r))
+          by (lia || reflexivity).
+        rewrite (run_if tbl _ (List.length env) 0 _ _ _ _ _ x);
+          [|lia|rewrite nth_middle; reflexivity].
+        rewrite app_length in Hrun. cbn [List.length] in Hrun. rewrite Nat.add_1_r in Hrun.
+        destruct x; exact Hrun.
+    Qed.
+
+    Lemma trie_chunk_correct : forall fuel cs t c,
+      trie_ok fuel cs = true -> In (t, c) cs ->
+      forall pre vidx ss env w rfuel needc v fin,
+        bits_of_pv (nth vidx env PNone) (nth vidx w 1) = pre ++ t ->
+        List.length t + needc <= rfuel ->
+        (forall rf, needc <= rf -> finishes (compile_ctor snap c (S vidx)) ss env w rf v fin) ->
+        finishes (trie_chunk snap fuel cs vidx (List.length pre)) ss env w rfuel v fin.
+    Proof.
+      induction fuel as [|f IH]; intros cs t c Hok Hin pre vidx ss env w rfuel needc v fin Hbits Hfuel Hbody;
+        [discriminate|].
+      destruct (find_done cs) as [c'|] eqn:Hfd.
+      - pose proof (trie_done_single f cs t c c' Hok Hin Hfd) as ->.
+        destruct Hin as [Heq|[]]. inversion Heq; subst t.
+        cbn [trie_chunk find_done find]. apply Hbody. lia.
+      - destruct t as [|x t]; [exfalso; exact (find_done_none cs c Hfd Hin)|].
+        destruct cs as [|p cs']; [contradiction|]. remember (p :: cs') as cs eqn:Hcs.
+        assert (Hok' : trie_ok f (sub_tags false cs) && trie_ok f (sub_tags true cs) = true).
+        { rewrite Hcs in Hok. cbn [trie_ok] in Hok. rewrite <- Hcs in Hok. rewrite Hfd in Hok. exact Hok. }
+        apply andb_prop in Hok'. destruct Hok' as [Hok0 Hok1].
+        assert (Htree : trie_chunk snap (S f) cs vidx (List.length pre)
+                        = DIf vidx (List.length pre)
+                            (trie_chunk snap f (sub_tags false cs) vidx (S (List.length pre)))
+                            (trie_chunk snap f (sub_tags true cs) vidx (S (List.length pre)))).
+        { rewrite Hcs. cbn [trie_chunk]. rewrite <- Hcs. rewrite Hfd. reflexivity. }
+        rewrite Htree. clear Htree. cbn [List.length] in *.
+        assert (Hrec : finishes (trie_chunk snap f (sub_tags x cs) vidx (List.length (pre ++ [x])))
+                         ss env w (rfuel - 1) v fin).
+        { apply (IH (sub_tags x cs) t c) with (needc := needc).
+          - destruct x; assumption.
+          - apply in_sub_tags. exact Hin.
+          - rewrite <- app_assoc. exact Hbits.
+          - lia.
+          - exact Hbody. }
+        destruct Hrec as (ss' & Hrun & Hget). exists ss'. split; [|exact Hget].
+        rewrite (run_if tbl rfuel vidx (List.length pre) _ _ ss env w x);
+          [|lia|rewrite Hbits; apply nth_middle].
+        rewrite app_length in Hrun. cbn [List.length] in Hrun. rewrite Nat.add_1_r in Hrun.
+        destruct x; exact Hrun.
+    Qed.
+
+    (* ---- the tag read in pieces ---- *)
+    Definition pend_bits (env : list pv) (w : list nat) (pend : list (nat * nat)) : list bool :=
+      map (fun p => nth (snd p) (bits_of_pv (nth (fst p) env PNone) (nth (fst p) w 1)) false) pend.
+
+    Lemma pend_bits_ext env w x wx pend : List.length w = List.length env ->
+      Forall (fun p => fst p < List.length env) pend ->
+      pend_bits (env ++ x) (w ++ wx) pend = pend_bits env w pend.
+    Proof.
+      intros Hw Hall. unfold pend_bits. apply map_ext_in. intros [vv i] Hin.
+      rewrite Forall_forall in Hall. specialize (Hall _ Hin). cbn [fst snd] in *.
+      rewrite !app_nth1 by lia. reflexivity.
+    Qed.
+
+    Lemma pend_bits_new env w val wd bits : List.length w = List.length env ->
+      bits_of_pv val wd = bits -> List.length bits = wd ->
+      pend_bits (env ++ [val]) (w ++ [wd]) (chunk_srcs (List.length env) wd) = bits.
+    Proof.
+      intros Hw Hb Hlen. unfold pend_bits, chunk_srcs. rewrite map_map. cbn [fst snd].
+      assert (E1 : nth (List.length env) (env ++ [val]) PNone = val) by apply nth_middle.
+      assert (E2 : nth (List.length env) (w ++ [wd]) 1 = wd) by (rewrite <- Hw; apply nth_middle).
+      rewrite E1, E2, Hb. clear E1 E2.
+      subst wd. clear Hb Hw.
+      assert (H : forall (l : list bool) k, map (fun i => nth i l false) (seq k (List.length l - k)) = skipn k l).
+      { intros l. remember (List.length l) as len eqn:Hl.
+        assert (forall m k, m = len - k -> k <= len -> map (fun i => nth i l false) (seq k m) = skipn k l).
+        { induction m as [|m IHm]; intros k Hm Hk.
+          - cbn [seq map]. rewrite skipn_all2 by lia. reflexivity.
+          - cbn [seq map]. rewrite (IHm (S k)) by lia.
+            assert (Hk' : k < List.length l) by lia.
+            clear -Hk'. revert k Hk'. induction l as [|y l IHl]; intros k Hk'; [cbn in Hk'; lia|].
+            destruct k as [|k]; [reflexivity|]. cbn [nth skipn]. apply IHl. cbn in Hk'. lia. }
+        intros k. destruct (Nat.le_gt_cases k len) as [Hle|Hgt].
+        - apply H; [reflexivity|exact Hle].
+        - replace (len - k) with 0 by lia. cbn [seq map]. rewrite skipn_all2 by lia. reflexivity. }
+      specialize (H bits 0). rewrite Nat.sub_0_r in H. exact H.
+    Qed.
+
+    Lemma tag_aligned_width len ck rest : tag_aligned len (ck :: rest) = true ->
+      chunk_width ck <= len /\ (len = chunk_width ck \/ tag_aligned (len - chunk_width ck) rest = true).
+    Proof.
+      cbn [tag_aligned]. intros H. apply orb_prop in H. destruct H as [H|H].
+      - apply Nat.eqb_eq in H. split; [lia|left; exact H].
+      - apply andb_prop in H. destruct H as [H1 H2]. apply Nat.ltb_lt in H1. split; [lia|right; exact H2].
+    Qed.
+
+    Lemma piece_chunk_ok ck bits : piece_ok ck = true -> List.length bits = chunk_width ck ->
+      chunk_ok ck bits = true.
+    Proof.
+      intros Hp Hlen. unfold chunk_ok. destruct ck as [n|n|k0|]; cbn [piece_ok] in Hp; try discriminate;
+        cbn [chunk_width chunk_view] in *; rewrite Hlen, Nat.eqb_refl, list_beq_refl.
+      - rewrite Hp. reflexivity.
+      - reflexivity.
+    Qed.
+
+    Lemma can_finish_false cs t c p : In (t, c) cs -> can_finish cs p = false -> p < List.length t.
+    Proof.
+      unfold can_finish. intros Hin H.
+      destruct (Nat.lt_ge_cases p (List.length t)) as [Hlt|Hge]; [exact Hlt|].
+      assert (Hex : existsb (fun '(t0, _) => List.length t0 <=? p) cs = true).
+      { apply existsb_exists. exists (t, c). split; [exact Hin|]. apply Nat.leb_le. exact Hge. }
+      congruence.
+    Qed.
+
+    Lemma trie_multi_correct : forall fuel F cs t c pend rest,
+      trie_ok F cs = true -> In (t, c) cs ->
+      forall env w b r rfuel needc v fin,
+        List.length w = List.length env ->
+        Forall (fun p => fst p < List.length env) pend ->
+        List.length pend <= List.length t ->
+        pend_bits env w pend = firstn (List.length pend) t ->
+        forallb piece_ok rest = true ->
+        (List.length t = List.length pend \/ tag_aligned (List.length t - List.length pend) rest = true) ->
+        List.length t + List.length rest < fuel ->
+        List.length t + List.length rest + needc <= rfuel ->
+        body_ok c env w b r needc v fin ->
+        finishes (trie_multi snap fuel cs pend rest (List.length env))
+                 [(0, ord (mkS (skipn (List.length pend) t ++ b) r))] env w rfuel v fin.
+    Proof.
+      induction fuel as [|f IH];
+        intros F cs t c pend rest Hok Hin env w b r rfuel needc v fin Hw Hpv Hpl Hpb Hpieces Hal Hfuel Hrf Hbody;
+        [lia|].
+      destruct F as [|F']; [discriminate|].
+      destruct (find_done cs) as [c'|] eqn:Hfd.
+      - pose proof (trie_done_single F' cs t c c' Hok Hin Hfd) as ->.
+        destruct Hin as [Heq|[]]. inversion Heq; subst t.
+        cbn [trie_multi find_done find]. cbn [List.length] in Hpl.
+        destruct pend as [|p0 pend']; [|cbn [List.length] in Hpl; lia].
+        cbn [List.length skipn app].
+        specialize (Hbody [] [] rfuel eq_refl). rewrite !app_nil_r in Hbody. apply Hbody. lia.
+      - destruct t as [|x t']; [exfalso; exact (find_done_none cs c Hfd Hin)|].
+        assert (Hne : cs <> []) by (intros ->; contradiction).
+        (* loading the next piece *)
+        assert (Hload : List.length pend < List.length (x :: t') ->
+                  finishes (match rest with
+                            | [] => DFail
+                            | ck :: rest' =>
+                                DOp 0 (chunk_op ck)
+                                  (trie_multi snap f cs (pend ++ chunk_srcs (List.length env) (chunk_width ck)) rest'
+                                     (S (List.length env)))
+                            end) [(0, ord (mkS (skipn (List.length pend) (x :: t') ++ b) r))] env w rfuel v fin).
+        { intros Hlt. destruct Hal as [Hal|Hal]; [lia|].
+          destruct rest as [|ck rest']; [cbn [tag_aligned] in Hal; discriminate|].
+          cbn [forallb] in Hpieces. apply andb_prop in Hpieces. destruct Hpieces as [Hpk Hpieces'].
+          destruct (tag_aligned_width _ _ _ Hal) as [Hwd Hal'].
+          set (tl0 := skipn (List.length pend) (x :: t')) in *.
+          assert (Htl : List.length tl0 = List.length (x :: t') - List.length pend)
+            by (unfold tl0; apply skipn_length).
+          set (cb := firstn (chunk_width ck) tl0).
+          assert (Hcb : List.length cb = chunk_width ck) by (unfold cb; rewrite firstn_length; lia).
+          assert (Hsplit : tl0 = cb ++ skipn (chunk_width ck) tl0) by (unfold cb; symmetry; apply firstn_skipn).
+          destruct (chunk_load ck cb
+                      (trie_multi snap f cs (pend ++ chunk_srcs (List.length env) (chunk_width ck)) rest'
+                         (S (List.length env)))
+                      0 [(0, ord (mkS (tl0 ++ b) r))] env w (skipn (chunk_width ck) tl0 ++ b) r rfuel)
+            as (val & Hrun & Hview).
+          { apply piece_chunk_ok; assumption. }
+          { cbn [get_slice Nat.eqb]. rewrite app_assoc, <- Hsplit. reflexivity. }
+          { cbn [List.length] in *. lia. }
+          cbn [set_slice Nat.eqb] in Hrun.
+          assert (Hrec : finishes (trie_multi snap f cs (pend ++ chunk_srcs (List.length env) (chunk_width ck)) rest'
+                                     (List.length (env ++ [val])))
+                           [(0, ord (mkS (skipn (List.length (pend ++ chunk_srcs (List.length env) (chunk_width ck)))
+                                                (x :: t') ++ b) r))]
+                           (env ++ [val]) (w ++ [chunk_width ck]) (rfuel - 1) v fin).
+          { apply (IH (S F') cs (x :: t') c) with (needc := needc); try assumption.
+            - rewrite !app_length. cbn. lia.
+            - apply Forall_app. split.
+              + eapply Forall_impl; [|exact Hpv]. intros p Hp. cbn beta in Hp. rewrite app_length. lia.
+              + unfold chunk_srcs. apply Forall_forall. intros p Hp. apply in_map_iff in Hp.
+                destruct Hp as (i & <- & _). cbn [fst]. rewrite app_length. cbn. lia.
+            - rewrite app_length. unfold chunk_srcs. rewrite map_length, seq_length. lia.
+            - rewrite app_length. unfold chunk_srcs at 2. rewrite map_length, seq_length.
+              unfold pend_bits. rewrite map_app. fold (pend_bits (env ++ [val]) (w ++ [chunk_width ck]) pend).
+              fold (pend_bits (env ++ [val]) (w ++ [chunk_width ck]) (chunk_srcs (List.length env) (chunk_width ck))).
+              rewrite (pend_bits_ext env w [val] [chunk_width ck] pend Hw Hpv), Hpb.
+              rewrite (pend_bits_new env w val (chunk_width ck) cb Hw Hview Hcb).
+              rewrite firstn_add. reflexivity.
+            - rewrite app_length. unfold chunk_srcs. rewrite map_length, seq_length.
+              destruct Hal' as [Hal'|Hal']; [left; lia|right].
+              replace (List.length (x :: t') - (List.length pend + chunk_width ck))
+                with (List.length (x :: t') - List.length pend - chunk_width ck) by lia. exact Hal'.
+            - cbn [List.length] in *. lia.
+            - cbn [List.length] in *. lia.
+            - apply body_ok_ext; [reflexivity|exact Hbody]. }
+          destruct Hrec as (ss' & Hrun' & Hget). exists ss'. split; [|exact Hget].
+          rewrite Hrun. rewrite app_length in Hrun'. cbn [List.length] in Hrun'. rewrite Nat.add_1_r in Hrun'.
+          rewrite app_length in Hrun'. unfold chunk_srcs in Hrun' at 2. rewrite map_length, seq_length in Hrun'.
+          rewrite skipn_add in Hrun'. exact Hrun'. }
+        assert (Htree : trie_multi snap (S f) cs pend rest (List.length env)
+                        = match pend with
+                          | (vv, i) :: pend' =>
+                              if can_finish cs (List.length pend)
+                              then DIf vv i (trie_multi snap f (sub_tags false cs) pend' rest (List.length env))
+                                            (trie_multi snap f (sub_tags true cs) pend' rest (List.length env))
+                              else match rest with
+                                   | [] => DFail
+                                   | ck :: rest' =>
+                                       DOp 0 (chunk_op ck)
+                                         (trie_multi snap f cs (pend ++ chunk_srcs (List.length env) (chunk_width ck))
+                                            rest' (S (List.length env)))
+                                   end
+                          | [] => match rest with
+                                  | [] => DFail
+                                  | ck :: rest' =>
+                                      DOp 0 (chunk_op ck)
+                                        (trie_multi snap f cs (pend ++ chunk_srcs (List.length env) (chunk_width ck))
+                                           rest' (S (List.length env)))
+                                  end
+                          end).
+        { cbn [trie_multi]. rewrite Hfd. destruct pend as [|[vv i] pend']; reflexivity. }
+        rewrite Htree. clear Htree.
+        destruct pend as [|[vv i] pend'].
+        + apply Hload. cbn [List.length]. lia.
+        + destruct (can_finish cs (List.length ((vv, i) :: pend'))) eqn:Hcf.
+          * (* the next pending bit is tested *)
+            cbn [List.length] in Hpl, Hpb. cbn [pend_bits map firstn fst snd] in Hpb.
+            inversion Hpb as [[Hbit Hpb']]. fold (pend_bits env w pend') in Hpb'.
+            pose proof (Forall_inv Hpv) as Hvv. pose proof (Forall_inv_tail Hpv) as Hpv'. cbn [fst] in Hvv.
+            assert (Hrec : finishes (trie_multi snap f (sub_tags x cs) pend' rest (List.length env))
+                             [(0, ord (mkS (skipn (List.length pend') t' ++ b) r))] env w (rfuel - 1) v fin).
+            { apply (IH F' (sub_tags x cs) t' c) with (needc := needc); try assumption.
+              - apply trie_ok_sub; assumption.
+              - apply in_sub_tags. exact Hin.
+              - lia.
+              - cbn [List.length] in Hal. destruct Hal as [Hal|Hal]; [left; lia|right].
+                replace (List.length t' - List.length pend') with (S (List.length t') - S (List.length pend')) by lia.
+                exact Hal.
+              - cbn [List.length] in Hfuel. lia.
+              - cbn [List.length] in Hrf. lia. }
+            destruct Hrec as (ss' & Hrun & Hget). exists ss'. split; [|exact Hget].
+            rewrite (run_if tbl rfuel vv i _ _ _ env w x); [|cbn [List.length] in Hrf; lia|exact Hbit].
+            cbn [List.length skipn]. destruct x; exact Hrun.
+          * apply Hload. exact (can_finish_false cs (x :: t') c _ Hin Hcf).
+    Qed.
+
+    (* ---- the tag only looked at ---- *)
+    Lemma match_bits_same : forall bits pre v i same other ss env w fuel,
+      bits_of_pv (nth v env PNone) (nth v w 1) = pre ++ bits -> List.length pre = i ->
+      List.length bits <= fuel ->
+      run tbl fuel (match_bits v i bits same other) ss env w = run tbl (fuel - List.length bits) same ss env w.
+    Proof.
+      induction bits as [|b r IH]; intros pre v i same other ss env w fuel Hbits Hpre Hfuel.
+      - cbn [match_bits List.length]. rewrite Nat.sub_0_r. reflexivity.
+      - cbn [List.length] in *.
+        assert (Hnth : nth i (bits_of_pv (nth v env PNone) (nth v w 1)) false = b).
+        { rewrite Hbits. subst i. apply nth_middle. }
+        assert (Hrec : run tbl (fuel - 1) (match_bits v (S i) r same other) ss env w
+                       = run tbl (fuel - S (List.length r)) same ss env w).
+        { rewrite (IH (pre ++ [b]) v (S i) same other ss env w (fuel - 1)).
+          - f_equal. lia.
+          - rewrite <- app_assoc. exact Hbits.
+          - rewrite app_length. cbn. lia.
+          - lia. }
+        cbn [match_bits]. destruct b.
+        + rewrite (run_if tbl fuel v i _ _ ss env w true) by (lia || exact Hnth). exact Hrec.
+        + rewrite (run_if tbl fuel v i _ _ ss env w false) by (lia || exact Hnth). exact Hrec.
+    Qed.
+
+    Lemma match_bits_other : forall bits actual pre v i same other ss env w fuel,
+      bits_of_pv (nth v env PNone) (nth v w 1) = pre ++ actual -> List.length pre = i ->
+      List.length actual = List.length bits -> list_beq actual bits = false ->
+      List.length bits <= fuel ->
+      exists c, 1 <= c <= List.length bits /\
+        run tbl fuel (match_bits v i bits same other) ss env w = run tbl (fuel - c) other ss env w.
+    Proof.
+      induction bits as [|b r IH]; intros actual pre v i same other ss env w fuel Hbits Hpre Hlen Hne Hfuel.
+      - destruct actual; [discriminate|cbn in Hlen; lia].
+      - destruct actual as [|y actual']; [cbn in Hlen; lia|]. cbn [List.length] in *.
+        assert (Hnth : nth i (bits_of_pv (nth v env PNone) (nth v w 1)) false = y).
+        { rewrite Hbits. subst i. apply nth_middle. }
+        cbn [list_beq] in Hne. cbn [match_bits].
+        destruct (Bool.eqb y b) eqn:Hyb.
+        + apply eqb_prop in Hyb. subst y. cbn [andb] in Hne.
+          destruct (IH actual' (pre ++ [b]) v (S i) same other ss env w (fuel - 1)) as (c & Hc & Hrun).
+          { rewrite <- app_assoc. exact Hbits. }
+          { rewrite app_length. cbn. lia. }
+          { lia. }
+          { exact Hne. }
+          { lia. }
+          exists (S c). split; [lia|].
+          destruct b.
+          * rewrite (run_if tbl fuel v i _ _ ss env w true) by (lia || exact Hnth). rewrite Hrun. f_equal. lia.
+          * rewrite (run_if tbl fuel v i _ _ ss env w false) by (lia || exact Hnth). rewrite Hrun. f_equal. lia.
+        + exists 1. split; [lia|].
+          destruct b, y; try discriminate.
+          * rewrite (run_if tbl fuel v i _ _ ss env w false) by (lia || exact Hnth). reflexivity.
+          * rewrite (run_if tbl fuel v i _ _ ss env w true) by (lia || exact Hnth). reflexivity.
+    Qed.
+
+    Lemma peek_list_correct : forall (cs : list ctor) (c : ctor) M,
+      peek_order_ok cs = true -> In c cs ->
+      Forall (fun c' => List.length (c_tag c') <= M) cs ->
+      forall env w b r rfuel needc v fin,
+        List.length w = List.length env ->
+        List.length cs * S M + needc <= rfuel ->
+        body_ok c env w (c_tag c ++ b) r needc v fin ->
+        finishes (peek_list snap (tagged_of cs) (List.length env))
+                 [(0, ord (mkS (c_tag c ++ b) r))] env w rfuel v fin.
+    Proof.
+      induction cs as [|c1 cs1 IH]; intros c M Hord Hin HM env w b r rfuel needc v fin Hw Hrf Hbody;
+        [contradiction|].
+      cbn [peek_order_ok] in Hord. apply andb_prop in Hord. destruct Hord as [Hord1 Hord].
+      inversion HM as [|? ? HM1 HM']; subst.
+      cbn [tagged_of map peek_list]. fold (tagged_of cs1).
+      destruct cs1 as [|c2 cs2].
+      - destruct Hin as [->|[]]. cbn [tagged_of map].
+        specialize (Hbody [] [] rfuel eq_refl). rewrite !app_nil_r in Hbody. apply Hbody.
+        cbn [List.length] in Hrf. lia.
+      - remember (c2 :: cs2) as cs1 eqn:Hcs1.
+        assert (Hshape : match tagged_of cs1 with
+                         | [] => compile_ctor snap c1 (List.length env)
+                         | _ :: _ => DOp 0 (OPeekBits (List.length (c_tag c1)))
+                                       (match_bits (List.length env) 0 (c_tag c1)
+                                          (compile_ctor snap c1 (S (List.length env)))
+                                          (peek_list snap (tagged_of cs1) (S (List.length env))))
+                         end
+                         = DOp 0 (OPeekBits (List.length (c_tag c1)))
+                             (match_bits (List.length env) 0 (c_tag c1)
+                                (compile_ctor snap c1 (S (List.length env)))
+                                (peek_list snap (tagged_of cs1) (S (List.length env))))).
+        { rewrite Hcs1. reflexivity. }
+        rewrite Hshape. clear Hshape.
+        set (pk := PBits (s_preload_bits (mkS (c_tag c ++ b) r) (List.length (c_tag c1)))).
+        assert (Hpeek : forall k, run tbl rfuel (DOp 0 (OPeekBits (List.length (c_tag c1))) k)
+                                    [(0, ord (mkS (c_tag c ++ b) r))] env w
+                                  = run tbl (rfuel - 1) k [(0, ord (mkS (c_tag c ++ b) r))]
+                                      (env ++ [pk]) (w ++ [List.length (c_tag c1)])).
+        { intros k. apply (run_peek tbl rfuel 0 _ k _ env w (ord (mkS (c_tag c ++ b) r))); [|reflexivity].
+          cbn [List.length] in Hrf. lia. }
+        assert (Hpkbits : bits_of_pv (nth (List.length env) (env ++ [pk]) PNone)
+                            (nth (List.length env) (w ++ [List.length (c_tag c1)]) 1)
+                          = firstn (List.length (c_tag c1)) (c_tag c ++ b)).
+        { rewrite nth_middle. reflexivity. }
+        destruct Hin as [Heq|Hin].
+        + (* this constructor: the peeked bits are its tag *)
+          subst c1.
+          assert (Hfin : finishes (compile_ctor snap c (List.length (env ++ [pk])))
+                           [(0, ord (mkS (c_tag c ++ b) r))] (env ++ [pk]) (w ++ [List.length (c_tag c)])
+                           (rfuel - 1 - List.length (c_tag c)) v fin).
+          { apply Hbody; [reflexivity|]. cbn [List.length] in Hrf. lia. }
+          destruct Hfin as (ss' & Hrun & Hget). exists ss'. split; [|exact Hget].
+          rewrite Hpeek.
+          rewrite (match_bits_same (c_tag c) [] (List.length env) 0 _ _ _ (env ++ [pk]) _ (rfuel - 1)).
+          * rewrite app_length in Hrun. cbn [List.length] in Hrun. rewrite Nat.add_1_r in Hrun. exact Hrun.
+          * rewrite Hpkbits. rewrite firstn_app_exact by reflexivity. reflexivity.
+          * reflexivity.
+          * cbn [List.length] in Hrf. lia.
+        + (* a later constructor: the peeked bits differ from this tag *)
+          rewrite forallb_forall in Hord1. specialize (Hord1 c Hin).
+          apply andb_prop in Hord1. destruct Hord1 as [Hle Hdiff]. apply Nat.leb_le in Hle.
+          apply negb_true_iff in Hdiff.
+          assert (Hfirst : firstn (List.length (c_tag c1)) (c_tag c ++ b) = firstn (List.length (c_tag c1)) (c_tag c)).
+          { rewrite firstn_app. replace (List.length (c_tag c1) - List.length (c_tag c)) with 0 by lia.
+            cbn [firstn]. apply app_nil_r. }
+          destruct (match_bits_other (c_tag c1) (firstn (List.length (c_tag c1)) (c_tag c)) []
+                      (List.length env) 0
+                      (compile_ctor snap c1 (S (List.length env)))
+                      (peek_list snap (tagged_of cs1) (S (List.length env)))
+                      [(0, ord (mkS (c_tag c ++ b) r))] (env ++ [pk]) (w ++ [List.length (c_tag c1)]) (rfuel - 1))
+            as (cst & Hcst & Hrunm).
+          { rewrite Hpkbits, Hfirst. reflexivity. }
+          { reflexivity. }
+          { rewrite firstn_length. lia. }
+          { exact Hdiff. }
+          { cbn [List.length] in Hrf. lia. }
+          assert (Hrec : finishes (peek_list snap (tagged_of cs1) (List.length (env ++ [pk])))
+                           [(0, ord (mkS (c_tag c ++ b) r))] (env ++ [pk]) (w ++ [List.length (c_tag c1)])
+                           (rfuel - 1 - cst) v fin).
+          { apply (IH c M Hord Hin HM') with (needc := needc).
+            - rewrite !app_length. cbn. lia.
+            - cbn [List.length] in Hrf. rewrite Hcs1 in *. cbn [List.length] in *. nia.
+            - apply body_ok_ext; [reflexivity|exact Hbody]. }
+          destruct Hrec as (ss' & Hrun & Hget). exists ss'. split; [|exact Hget].
+          rewrite Hpeek, Hrunm.
+          rewrite app_length in Hrun. cbn [List.length] in Hrun. rewrite Nat.add_1_r in Hrun. exact Hrun.
+    Qed.
+  End Tries.
 
   (* ---- layouts ---- *)
 
@@ -1272,56 +2433,193 @@ Section Correct.
     cbn [fold_right]. destruct Hin as [->|Hin]; [lia|]. specialize (IH Hin). lia.
   Qed.
 
-  Lemma layout_correct L v bits refs :
-    wf_layout L = true -> wt_layout (wt_type st d) L v -> enc_layout (enc_type st d) L v = Ok (bits, refs) ->
-    forall fuel ty tb tr, need_layout (need_type st d) L <= fuel ->
-      finishes (compile L) [(0, mkTS ty (mkS (bits ++ tb) (refs ++ tr)))] [] [] fuel v (mkTS ty (mkS tb tr)).
+  (* an encoding begins with the tag of one of the constructors (unless the tags are peeked) *)
+  Lemma enc_layout_tag ety rty L x b0 r0 :
+    match t_mode L with TagPeek => False | _ => True end ->
+    enc_layout ch ety rty L x = Ok (b0, r0) ->
+    exists c', In c' (t_ctors L) /\ exists rest, b0 = c_tag c' ++ rest.
   Proof.
-    unfold wf_layout, wt_layout, enc_layout, need_layout.
-    intros Hwf Hwt Henc fuel ty tb tr Hfuel.
-    apply andb_prop in Hwf. destruct Hwf as [Hctors Htrie].
-    destruct (find (fun c => ctor_matches c v) (t_ctors L)) as [c|] eqn:Hfind; [|contradiction].
-    apply find_some in Hfind. destruct Hfind as [Hin Hmatch].
+    intros Hmode. unfold enc_layout.
+    destruct (find (fun c => ctor_matches c x) (t_ctors L)) as [c'|] eqn:Hfind; [|discriminate].
+    apply find_some in Hfind. destruct Hfind as [Hin _]. unfold enc_ctor.
+    destruct (enc_items ch ety rty (ctor_look c' x) (c_items c')) as [[b r]|e]; cbn [bind]; [|discriminate].
+    intros H. inversion H; subst. exists c'. split; [exact Hin|]. exists b.
+    destruct (t_mode L); try contradiction; reflexivity.
+  Qed.
+
+  Lemma snap_bound_ext snap v env more : snap_bound snap v env -> snap_bound snap v (env ++ more).
+  Proof.
+    destruct snap as [nm|]; [|trivial]. cbn [snap_bound]. intros [H1 H2]. split.
+    - rewrite app_nth1 by lia. exact H1.
+    - rewrite app_length. lia.
+  Qed.
+
+  Local Notation WTC := (wt_ctor ch (wt_type ch st d) (rest_type ch st)).
+
+  Lemma tag_correct L c v cx b0 r0 :
+    wf_layout L = true -> peek_ok st L = true -> In c (t_ctors L) -> ctor_matches c v = true ->
+    WTC (t_snap L) c cx v -> ENCIS (ctor_look c v) (c_items c) = Ok (b0, r0) ->
+    forall env w tb tr fuel,
+      ctx_ok cx tb tr -> List.length w = List.length env -> List.length env = snap_n L ->
+      snap_bound (t_snap L) v env ->
+      need_tag L + fold_right (fun c m => Nat.max (need_ctor (need_type st d) c) m) 0 (t_ctors L) <= fuel ->
+      finishes (compile_tag L) [(0, ord (mkS ((own_tag (t_mode L) c ++ b0) ++ tb) (r0 ++ tr)))] env w fuel v
+               (ord (mkS tb tr)).
+  Proof.
+    intros Hwf Hpeek Hin Hmatch Hwt Hinner env w tb tr fuel Hctx Hw Hlen Hsb Hfuel.
+    unfold wf_layout in Hwf. apply andb_prop in Hwf. destruct Hwf as [Hctors Htrie].
     rewrite forallb_forall in Hctors. specialize (Hctors c Hin). unfold wf_ctor in Hctors.
     apply andb_prop in Hctors. destruct Hctors as [Hctors Hmode].
+    apply andb_prop in Hctors. destruct Hctors as [Hctors Hsnapret].
     apply andb_prop in Hctors. destruct Hctors as [Hctors Hnone].
     apply andb_prop in Hctors. destruct Hctors as [Hitems Hgb].
-    unfold enc_ctor in Henc.
-    destruct (enc_items (enc_type st d) (ctor_look c v) (c_items c)) as [[b0 r0]|e] eqn:Hinner;
-      cbn [bind] in Henc; [|discriminate].
-    inversion Henc; subst bits refs; clear Henc.
     pose proof (tag_fuel_bound _ _ Hin) as Htag.
     pose proof (need_ctor_bound (need_type st d) _ _ Hin) as Hneed.
     assert (HinT : In (c_tag c, c) (tagged_of (t_ctors L))).
     { unfold tagged_of. apply in_map_iff. exists c. split; [reflexivity|exact Hin]. }
     assert (Hnone' : c_ret c = RNone -> c_items c = []).
     { intros E. rewrite E in Hnone. destruct (c_items c); [reflexivity|discriminate]. }
-    assert (Hsame' : c_ret c = RSame -> exists nm f, c_items c = [INamed nm f]).
-    { intros E. rewrite E in Hnone. destruct (c_items c) as [|[nm f| | | |] [|it r]]; try discriminate.
-      exists nm, f. reflexivity. }
-    unfold compile. destruct (t_mode L) as [|ck].
-    - rewrite <- app_assoc. change 0 with (List.length (@nil pv)).
-      apply (trie_bits_correct _ _ _ c Htrie HinT [] [] ty (b0 ++ tb) (r0 ++ tr) fuel
-               (need_ctor (need_type st d) c)); [reflexivity|lia|].
-      intros env' w' rf Hw' Hrf.
-      apply (ctor_correct c v b0 r0 Hitems Hgb Hnone' Hsame' Hmatch Hwt Hinner env' w' ty tb tr rf Hw' Hrf).
+    assert (Hsame' : match c_ret c with RSame | RSameCls _ => True | _ => False end ->
+                     exists nm f, c_items c = [INamed nm f]).
+    { intros E. destruct (c_ret c); try contradiction;
+        (destruct (c_items c) as [|[nm f| | | |] [|it r]]; try discriminate; exists nm, f; reflexivity). }
+    assert (Hsnapret' : match t_snap L, c_ret c with Some _, RObj _ _ | None, _ => True | _, _ => False end).
+    { destruct (t_snap L), (c_ret c); try exact I; discriminate. }
+    assert (Hbody : forall tg, body_ok (snap_acc L) c env w (tg ++ tb) (r0 ++ tr) (need_ctor (need_type st d) c) v
+                                 (ord (mkS tb tr)) -> True) by trivial.
+    clear Hbody.
+    assert (Hbody : body_ok (snap_acc L) c env w (b0 ++ tb) (r0 ++ tr) (need_ctor (need_type st d) c) v
+                      (ord (mkS tb tr))).
+    { intros more wmore rf Hlm Hrf.
+      apply (ctor_correct (t_snap L) c v cx b0 r0 Hitems Hgb Hnone' Hsame' Hsnapret' Hmatch Hwt Hinner
+               (env ++ more) (w ++ wmore) tb tr rf Hctx).
+      - rewrite !app_length. lia.
+      - exact Hrf.
+      - apply snap_bound_ext. exact Hsb. }
+    unfold compile_tag, need_tag in *. rewrite <- Hlen.
+    destruct (t_mode L) as [|ck|cks|] eqn:Hm; cbn [own_tag].
     - rewrite <- app_assoc.
-      destruct (chunk_load ck (c_tag c) (trie_chunk (tag_fuel (t_ctors L)) (tagged_of (t_ctors L)) 0 0) 0
-                  [(0, mkTS ty (mkS (c_tag c ++ b0 ++ tb) (r0 ++ tr)))] [] [] ty (b0 ++ tb) (r0 ++ tr) fuel
+      apply (trie_bits_correct (snap_acc L) _ _ _ c Htrie HinT env w (b0 ++ tb) (r0 ++ tr) fuel
+               (need_ctor (need_type st d) c)); [exact Hw|lia|exact Hbody].
+    - rewrite <- app_assoc.
+      destruct (chunk_load ck (c_tag c) (trie_chunk (snap_acc L) (tag_fuel (t_ctors L)) (tagged_of (t_ctors L))
+                                           (List.length env) 0) 0
+                  [(0, ord (mkS (c_tag c ++ b0 ++ tb) (r0 ++ tr)))] env w (b0 ++ tb) (r0 ++ tr) fuel
                   Hmode eq_refl) as (val & Hrun & Hview); [lia|].
       cbn [set_slice Nat.eqb app] in Hrun.
-      assert (Hfin : finishes (trie_chunk (tag_fuel (t_ctors L)) (tagged_of (t_ctors L)) 0 (List.length (@nil bool)))
-                       [(0, mkTS ty (mkS (b0 ++ tb) (r0 ++ tr)))] [val] [chunk_width ck] (fuel - 1) v
-                       (mkTS ty (mkS tb tr))).
-      { apply (trie_chunk_correct _ _ _ c Htrie HinT [] 0 _ [val] [chunk_width ck] (fuel - 1)
-                 (need_ctor (need_type st d) c)).
-        - exact Hview.
+      assert (Hfin : finishes (trie_chunk (snap_acc L) (tag_fuel (t_ctors L)) (tagged_of (t_ctors L))
+                                 (List.length env) (List.length (@nil bool)))
+                       [(0, ord (mkS (b0 ++ tb) (r0 ++ tr)))] (env ++ [val]) (w ++ [chunk_width ck]) (fuel - 1) v
+                       (ord (mkS tb tr))).
+      { apply (trie_chunk_correct (snap_acc L) _ _ _ c Htrie HinT [] (List.length env) _ (env ++ [val])
+                 (w ++ [chunk_width ck]) (fuel - 1) (need_ctor (need_type st d) c)).
+        - rewrite nth_middle. rewrite <- Hw. rewrite nth_middle. exact Hview.
         - lia.
-        - intros rf Hrf.
-          apply (ctor_correct c v b0 r0 Hitems Hgb Hnone' Hsame' Hmatch Hwt Hinner [val] [chunk_width ck] ty tb tr rf
-                   eq_refl Hrf). }
+        - intros rf Hrf. specialize (Hbody [val] [chunk_width ck] rf eq_refl Hrf).
+          rewrite app_length in Hbody. cbn [List.length] in Hbody. rewrite Nat.add_1_r in Hbody. exact Hbody. }
       destruct Hfin as (ss' & Hrun' & Hget). exists ss'. split; [|exact Hget].
       rewrite Hrun. exact Hrun'.
+    - rewrite <- app_assoc. apply andb_prop in Hmode. destruct Hmode as [Hpieces Hal].
+      apply (trie_multi_correct (snap_acc L) _ (tag_fuel (t_ctors L)) _ (c_tag c) c [] cks Htrie HinT env w
+               (b0 ++ tb) (r0 ++ tr) fuel (need_ctor (need_type st d) c)); try assumption.
+      + constructor.
+      + cbn [List.length]. lia.
+      + reflexivity.
+      + right. cbn [List.length]. rewrite Nat.sub_0_r. exact Hal.
+      + lia.
+      + lia.
+    - (* the tag is the beginning of the encoding of the type the constructor stands for *)
+      cbn [app].
+      assert (Hpre : exists rest, b0 = c_tag c ++ rest).
+      { unfold peek_ok in Hpeek. rewrite Hm in Hpeek. rewrite forallb_forall in Hpeek.
+        specialize (Hpeek c Hin). unfold peek_ctor_ok in Hpeek.
+        destruct (c_items c) as [|[nm f| | | |] [|it r]] eqn:Hits; try discriminate;
+          try (destruct f; discriminate).
+        destruct f as [ | | | | | | | | | | | | | | | | |T a| | | | | | | | | | ]; try discriminate.
+        destruct (slookup st T a) as [L'|] eqn:HL'; [|discriminate].
+        apply andb_prop in Hpeek. destruct Hpeek as [Hnp Hall].
+        cbn [enc_items enc_item enc_field] in Hinner.
+        destruct (enc_type ch st d T a (ctor_look c v nm)) as [[b1 r1]|e] eqn:He; cbn [bind] in Hinner; [|discriminate].
+        inversion Hinner; subst b0 r0. clear Hinner. rewrite app_nil_r.
+        destruct d as [|d']; cbn [enc_type] in He; [discriminate|]. rewrite HL' in He.
+        assert (Hmode' : match t_mode L' with TagPeek => False | _ => True end)
+          by (destruct (t_mode L'); try exact I; discriminate).
+        destruct (enc_layout_tag (enc_type ch st d') (rest_type ch st) L' _ b1 r1 Hmode' He)
+          as (c' & Hin' & rest & Hb1).
+        rewrite forallb_forall in Hall. specialize (Hall c' Hin'). apply list_beq_eq in Hall.
+        exists (skipn (List.length (c_tag c)) (c_tag c') ++ rest).
+        rewrite Hb1. rewrite app_assoc. f_equal.
+        rewrite <- (firstn_skipn (List.length (c_tag c)) (c_tag c')) at 1. rewrite Hall. reflexivity. }
+      destruct Hpre as (rest & Hb0).
+      rewrite Hb0 in Hbody |- *. rewrite <- app_assoc in Hbody |- *.
+      apply (peek_list_correct (snap_acc L) (t_ctors L) c (tag_fuel (t_ctors L)) Htrie Hin) with
+        (needc := need_ctor (need_type st d) c); try assumption.
+      + apply Forall_forall. intros c' Hin'. pose proof (tag_fuel_bound _ _ Hin'). lia.
+      + lia.
+  Qed.
+
+  Lemma layout_correct L v cx bits refs :
+    wf_layout L = true -> peek_ok st L = true ->
+    wt_layout ch (wt_type ch st d) (enc_type ch st d) (rest_type ch st) L cx v ->
+    enc_layout ch (enc_type ch st d) (rest_type ch st) L v = Ok (bits, refs) ->
+    forall fuel tb tr, ctx_ok cx tb tr -> need_layout (need_type st d) L <= fuel ->
+      finishes (compile L) [(0, ord (mkS (bits ++ tb) (refs ++ tr)))] [] [] fuel v (ord (mkS tb tr)).
+  Proof.
+    unfold wt_layout, need_layout.
+    intros Hwf Hpeek Hwt Henc fuel tb tr Hctx Hfuel.
+    pose proof Henc as Henc0. unfold enc_layout in Henc.
+    destruct (find (fun c => ctor_matches c v) (t_ctors L)) as [c|] eqn:Hfind; [|contradiction].
+    apply find_some in Hfind. destruct Hfind as [Hin Hmatch]. destruct Hwt as [Hwt Hsnap].
+    unfold enc_ctor in Henc.
+    destruct (ENCIS (ctor_look c v) (c_items c)) as [[b0 r0]|e] eqn:Hinner; cbn [bind] in Henc; [|discriminate].
+    inversion Henc; subst bits refs; clear Henc.
+    set (cell0 := Cell ty_ordinary ((own_tag (t_mode L) c ++ b0) ++ tb) (r0 ++ tr)).
+    (* the tag and the constructor, with or without the snapshot variable *)
+    assert (Htag : forall env w rf, List.length w = List.length env -> List.length env = snap_n L ->
+                     snap_bound (t_snap L) v env ->
+                     need_tag L + fold_right (fun c m => Nat.max (need_ctor (need_type st d) c) m) 0 (t_ctors L) <= rf ->
+                     finishes (compile_tag L) [(0, ord (mkS ((own_tag (t_mode L) c ++ b0) ++ tb) (r0 ++ tr)))]
+                              env w rf v (ord (mkS tb tr))).
+    { intros env w rf Hw Hlen Hsb Hrf.
+      exact (tag_correct L c v cx b0 r0 Hwf Hpeek Hin Hmatch Hwt Hinner env w tb tr rf Hctx Hw Hlen Hsb Hrf). }
+    (* the test of the cell type *)
+    assert (Hbody : forall env w rf, List.length w = List.length env -> List.length env = snap_n L ->
+                      snap_bound (t_snap L) v env ->
+                      need_tag L + fold_right (fun c m => Nat.max (need_ctor (need_type st d) c) m) 0 (t_ctors L)
+                      + match t_special L with SpNo => 0 | _ => 1 end <= rf ->
+                      finishes (match t_special L with
+                                | SpNo => compile_tag L
+                                | SpNone => DIfSpecial 0 (compile_tag L) (DRet ENone)
+                                | SpCell => DIfSpecial 0 (compile_tag L) (DOp 0 OToCell (DRet (EVar (snap_n L))))
+                                end)
+                               [(0, ord (mkS ((own_tag (t_mode L) c ++ b0) ++ tb) (r0 ++ tr)))]
+                               env w rf v (ord (mkS tb tr))).
+    { intros env w rf Hw Hlen Hsb Hrf.
+      destruct (t_special L).
+      - apply Htag; try assumption. lia.
+      - destruct (Htag env w (rf - 1) Hw Hlen Hsb) as (ss' & Hrun & Hget); [lia|].
+        exists ss'. split; [|exact Hget].
+        rewrite (run_ifspecial_ord tbl rf 0 _ _ [(0, ord (mkS ((own_tag (t_mode L) c ++ b0) ++ tb) (r0 ++ tr)))]
+                   env w (mkS ((own_tag (t_mode L) c ++ b0) ++ tb) (r0 ++ tr)) ltac:(lia) eq_refl).
+        exact Hrun.
+      - destruct (Htag env w (rf - 1) Hw Hlen Hsb) as (ss' & Hrun & Hget); [lia|].
+        exists ss'. split; [|exact Hget].
+        rewrite (run_ifspecial_ord tbl rf 0 _ _ [(0, ord (mkS ((own_tag (t_mode L) c ++ b0) ++ tb) (r0 ++ tr)))]
+                   env w (mkS ((own_tag (t_mode L) c ++ b0) ++ tb) (r0 ++ tr)) ltac:(lia) eq_refl).
+        exact Hrun. }
+    unfold compile. unfold snap_ok in Hsnap. unfold snap_n in *.
+    destruct (t_snap L) as [snm|] eqn:Hsn.
+    - (* the snapshot is taken first *)
+      destruct cx as [[tb' tr']|]; [|contradiction]. cbn [ctx_ok] in Hctx. inversion Hctx; subst tb' tr'.
+      rewrite Henc0 in Hsnap.
+      destruct (Hbody [PCell cell0] [1] (fuel - 1) eq_refl eq_refl) as (ss' & Hrun & Hget).
+      { cbn [snap_bound nth List.length]. split; [symmetry; exact Hsnap|lia]. }
+      { lia. }
+      exists ss'. split; [|exact Hget].
+      rewrite (run_tocell tbl fuel 0 _ [(0, ord (mkS ((own_tag (t_mode L) c ++ b0) ++ tb) (r0 ++ tr)))] [] []
+                 (ord (mkS ((own_tag (t_mode L) c ++ b0) ++ tb) (r0 ++ tr))) ltac:(lia) eq_refl).
+      exact Hrun.
+    - apply (Hbody [] [] fuel eq_refl eq_refl I). lia.
   Qed.
 End Correct.
 
@@ -1341,52 +2639,57 @@ Proof.
   - destruct (IH _ _ _ H) as (T1 & a1 & Hin). exists T1, a1. right. exact Hin.
 Qed.
 
-Lemma wf_table_lookup st T a L : wf_table st = true -> slookup st T a = Some L -> wf_layout L = true.
+Lemma wf_table_lookup st T a L : wf_table st = true -> slookup st T a = Some L ->
+  wf_layout L = true /\ peek_ok st L = true.
 Proof.
   unfold wf_table. intros Hwf Hl. destruct (slookup_in _ _ _ _ Hl) as (T' & a' & Hin).
-  rewrite forallb_forall in Hwf. exact (Hwf _ Hin).
+  rewrite forallb_forall in Hwf. specialize (Hwf _ Hin). cbn beta iota in Hwf.
+  apply andb_prop in Hwf. exact Hwf.
 Qed.
 
-Theorem types_correct tbl st : wf_table st = true -> agree tbl st -> forall d, ty_ok tbl st d.
+Theorem types_correct tbl st ch : wf_table st = true -> agree tbl st -> forall d, ty_ok tbl st ch d.
 Proof.
-  intros Hwf Hagree. induction d as [|d IH]; intros T a x bits refs Hwt Henc; [contradiction|].
+  intros Hwf Hagree. induction d as [|d IH]; intros T a c x bits refs Hwt Henc; [contradiction|].
   cbn [wt_type enc_type] in Hwt, Henc.
   destruct (slookup st T a) as [L|] eqn:Hl; [|contradiction].
   exists (compile L). split; [apply Hagree; exact Hl|].
-  intros fuel ty tb tr Hfuel. cbn [need_type] in Hfuel. rewrite Hl in Hfuel.
-  apply (layout_correct tbl st d IH L x bits refs (wf_table_lookup _ _ _ _ Hwf Hl) Hwt Henc fuel ty tb tr Hfuel).
+  intros fuel tb tr Hctx Hfuel. cbn [need_type] in Hfuel. rewrite Hl in Hfuel.
+  destruct (wf_table_lookup _ _ _ _ Hwf Hl) as [HwfL HpkL].
+  apply (layout_correct tbl st ch d IH L x c bits refs HwfL HpkL Hwt Henc fuel tb tr Hctx Hfuel).
 Qed.
 
 (* compile_correct: for every layout L of a well-formed table whose compiled trees the table tbl holds,
-   every well-typed value v, and every continuation tb/tr of the cell: running compile L on the encoding of
-   v followed by tb/tr returns v and leaves exactly tb/tr in the slice. *)
-Theorem compile_correct tbl st d L v bits refs :
+   every choice ch of the alternatives of the Either fields, every value v well typed for a tail cx (nothing
+   known of it, or exactly tb/tr), in an ordinary cell: running compile L on the encoding of v followed by
+   tb/tr returns v and leaves exactly tb/tr in the slice. *)
+Theorem compile_correct tbl st ch d L v cx bits refs :
   forall (Hwf_table : wf_table st = true) (Hagree : agree tbl st) (Hwf_layout : wf_layout L = true)
-         (Hwt : wt_layout (wt_type st d) L v)
-         (Henc : enc_layout (enc_type st d) L v = Ok (bits, refs)),
-  forall fuel ty tb tr, need_layout (need_type st d) L <= fuel ->
-    exists ss', run tbl fuel (compile L) [(0, mkTS ty (mkS (bits ++ tb) (refs ++ tr)))] [] [] = Ok (v, ss')
-                /\ get_slice ss' 0 = Ok (mkTS ty (mkS tb tr)).
+         (Hpeek : peek_ok st L = true)
+         (Hwt : wt_layout ch (wt_type ch st d) (enc_type ch st d) (rest_type ch st) L cx v)
+         (Henc : enc_layout ch (enc_type ch st d) (rest_type ch st) L v = Ok (bits, refs)),
+  forall fuel tb tr, ctx_ok cx tb tr -> need_layout (need_type st d) L <= fuel ->
+    exists ss', run tbl fuel (compile L) [(0, mkTS ty_ordinary (mkS (bits ++ tb) (refs ++ tr)))] [] [] = Ok (v, ss')
+                /\ get_slice ss' 0 = Ok (mkTS ty_ordinary (mkS tb tr)).
 Proof.
-  intros Hwf_table Hagree Hwf_layout Hwt Henc fuel ty tb tr Hfuel.
-  exact (layout_correct tbl st d (types_correct tbl st Hwf_table Hagree d) L v bits refs Hwf_layout Hwt Henc
-           fuel ty tb tr Hfuel).
+  intros Hwf_table Hagree Hwf_layout Hpeek Hwt Henc fuel tb tr Hctx Hfuel.
+  exact (layout_correct tbl st ch d (types_correct tbl st ch Hwf_table Hagree d) L v cx bits refs Hwf_layout Hpeek
+           Hwt Henc fuel tb tr Hctx Hfuel).
 Qed.
 
 (* the same for the entry point run_type *)
-Theorem run_type_correct tbl st T a L v bits refs :
+Theorem run_type_correct tbl st ch T a L v cx bits refs :
   forall (Hwf_table : wf_table st = true) (Hagree : agree tbl st) (Hwf_layout : wf_layout L = true)
+         (Hpeek : peek_ok st L = true)
          (Hlookup : lookup tbl T a = Some (compile L))
-         (Hwt : wt st L v) (Henc : encode st L v = Ok (bits, refs)),
-  forall fuel ty tb tr, need st L <= fuel ->
-    run_type tbl fuel T a (Cell ty (bits ++ tb) (refs ++ tr)) = Ok (v, mkS tb tr).
+         (Hwt : wt_in ch st L cx v) (Henc : encode_ch ch st L v = Ok (bits, refs)),
+  forall fuel tb tr, ctx_ok cx tb tr -> need st L <= fuel ->
+    run_type tbl fuel T a (Cell ty_ordinary (bits ++ tb) (refs ++ tr)) = Ok (v, mkS tb tr).
 Proof.
-  unfold wt, encode, need. intros Hwf_table Hagree Hwf_layout Hlookup Hwt Henc fuel ty tb tr Hfuel.
-  destruct (compile_correct tbl st tdepth L v bits refs Hwf_table Hagree Hwf_layout Hwt Henc fuel ty tb tr Hfuel)
-    as (ss' & Hrun & Hget).
+  unfold wt_in, encode_ch, need. intros Hwf_table Hagree Hwf_layout Hpeek Hlookup Hwt Henc fuel tb tr Hctx Hfuel.
+  destruct (compile_correct tbl st ch tdepth L v cx bits refs Hwf_table Hagree Hwf_layout Hpeek Hwt Henc fuel tb tr
+              Hctx Hfuel) as (ss' & Hrun & Hget).
   unfold run_type. rewrite Hlookup. cbn [cell_slice]. rewrite Hrun. cbn [bind]. rewrite Hget. reflexivity.
 Qed.
-
 (* ------------------------------------------------------------------------------------------------ *)
 (* What the library does (Gen/TlbImpl.v) IS the compilation of what block.tlb says (Spec/BlockTlb.v)  *)
 (* ------------------------------------------------------------------------------------------------ *)
@@ -1622,6 +2925,27 @@ Lemma impl_NftItemSaleFees_is_spec : impl_NftItemSaleFees = compile spec_NftItem
 Proof. vm_compute. reflexivity. Qed.
 Lemma impl_NftItemSaleData_is_spec : impl_NftItemSaleData = compile spec_NftItemSaleData.
 Proof. vm_compute. reflexivity. Qed.
+Lemma impl_ShardAccount_is_spec : impl_ShardAccount = compile spec_ShardAccount.
+Proof. vm_compute. reflexivity. Qed.
+Lemma impl_ValidatorSet_is_spec : impl_ValidatorSet = compile spec_ValidatorSet.
+Proof. vm_compute. reflexivity. Qed.
+Lemma impl_TransactionDescr_is_spec : impl_TransactionDescr = compile spec_TransactionDescr.
+Proof. vm_compute. reflexivity. Qed.
+Lemma impl_CommonMsgInfo_is_spec : impl_CommonMsgInfo = compile spec_CommonMsgInfo.
+Proof. vm_compute. reflexivity. Qed.
+Lemma impl_MessageAny_is_spec : impl_MessageAny = compile spec_MessageAny.
+Proof. vm_compute. reflexivity. Qed.
+Lemma impl_Transaction_is_spec : impl_Transaction = compile spec_Transaction.
+Proof. vm_compute. reflexivity. Qed.
+Lemma impl_InMsg_is_spec : impl_InMsg = compile spec_InMsg.
+Proof. vm_compute. reflexivity. Qed.
+Lemma impl_ValueFlow_is_spec : impl_ValueFlow = compile spec_ValueFlow.
+Proof. vm_compute. reflexivity. Qed.
+Lemma impl_AccountBlock_is_spec : impl_AccountBlock = compile spec_AccountBlock.
+Proof. vm_compute. reflexivity. Qed.
+(* tree equality only (not in spec_table: no value of a HashmapAugE field is well typed, see Spec/BlockTlb.v) *)
+Lemma impl_ShardAccounts_is_spec : impl_ShardAccounts = compile spec_ShardAccounts.
+Proof. vm_compute. reflexivity. Qed.
 
 (* FINDINGS: layouts of Spec/BlockTlb.v whose tree differs *)
 (* WorkchainFormat.deserialize accepts the tag #0 for wfmt_basic#1 and the tag #1 for wfmt_ext#0 *)
@@ -1643,7 +2967,23 @@ Proof.
 Qed.
 
 (* C16 for one type of the table: the library's parser, run on the encoding of any well-typed value
-   followed by anything, returns the value and leaves exactly what followed *)
+   followed by anything, returns the value and leaves exactly what followed.
+   ch: how the alternatives of the Either fields are chosen; cx: what the value knows of what follows it
+   (None, or exactly tb/tr: a value with an inline Any body or a snapshot of its cell) *)
+Theorem C16_generic_ch T L N :
+  forall (Hlookup : slookup spec_table T [] = Some L)
+         (Hneed : (need spec_table L <=? N) = true),
+  forall ch cx v tb tr bits refs fuel,
+    wt_in ch spec_table L cx v -> encode_ch ch spec_table L v = Ok (bits, refs) -> ctx_ok cx tb tr -> N <= fuel ->
+    run_type impl_table fuel T [] (Cell (-1) (bits ++ tb) (refs ++ tr)) = Ok (v, mkS tb tr).
+Proof.
+  intros Hlookup Hneed ch cx v tb tr bits refs fuel Hwt Henc Hctx Hfuel. apply Nat.leb_le in Hneed.
+  destruct (wf_table_lookup _ _ _ _ spec_table_wf Hlookup) as [HwfL HpkL].
+  apply (run_type_correct impl_table spec_table ch T [] L v cx bits refs spec_table_wf impl_agree
+           HwfL HpkL (impl_agree _ _ _ Hlookup) Hwt Henc); [exact Hctx|lia].
+Qed.
+
+(* the types without Either fields, inline Any bodies or snapshots: no choice, any tail *)
 Theorem C16_generic T L N :
   forall (Hlookup : slookup spec_table T [] = Some L)
          (Hneed : (need spec_table L <=? N) = true),
@@ -1651,8 +2991,46 @@ Theorem C16_generic T L N :
     wt spec_table L v -> encode spec_table L v = Ok (bits, refs) -> N <= fuel ->
     run_type impl_table fuel T [] (Cell (-1) (bits ++ tb) (refs ++ tr)) = Ok (v, mkS tb tr).
 Proof.
-  intros Hlookup Hneed v tb tr bits refs fuel Hwt Henc Hfuel. apply Nat.leb_le in Hneed.
-  apply (run_type_correct impl_table spec_table T [] L v bits refs spec_table_wf impl_agree
-           (wf_table_lookup _ _ _ _ spec_table_wf Hlookup) (impl_agree _ _ _ Hlookup) Hwt Henc).
-  lia.
+  intros Hlookup Hneed v tb tr bits refs fuel Hwt Henc Hfuel.
+  exact (C16_generic_ch T L N Hlookup Hneed ch_ref None v tb tr bits refs fuel Hwt Henc I Hfuel).
+Qed.
+
+(* a value with a snapshot attribute holds, under it, the very cell it is parsed from *)
+Lemma wt_snapshot ch st L tb tr v nm bits refs :
+  t_snap L = Some nm -> wt_in ch st L (Some (tb, tr)) v -> encode_ch ch st L v = Ok (bits, refs) ->
+  field_of v nm = PCell (Cell ty_ordinary (bits ++ tb) (refs ++ tr)).
+Proof.
+  unfold wt_in, encode_ch, wt_layout, snap_ok. intros Hsn Hwt Henc.
+  destruct (find (fun c => ctor_matches c v) (t_ctors L)); [|contradiction].
+  destruct Hwt as [_ Hs]. rewrite Hsn in Hs. rewrite Henc in Hs. exact Hs.
+Qed.
+
+(* ---- exotic cells: what the layouts with an exotic-cell test return, whatever the cell holds ---- *)
+Lemma compile_exotic tbl L ty bits refs fuel : ty <> ty_ordinary -> 4 <= fuel ->
+  match t_special L with
+  | SpNo => True
+  | SpNone =>
+      run tbl fuel (compile L) [(0, mkTS ty (mkS bits refs))] [] [] = Ok (PNone, [(0, mkTS ty (mkS bits refs))])
+  | SpCell =>
+      run tbl fuel (compile L) [(0, mkTS ty (mkS bits refs))] [] []
+      = Ok (PCell (Cell ty bits refs), [(0, mkTS ty (mkS bits refs))])
+  end.
+Proof.
+  intros Hty Hfuel. apply Z.eqb_neq in Hty.
+  destruct fuel as [|[|[|[|f]]]]; try lia.
+  unfold compile, snap_n. destruct (t_special L), (t_snap L); try exact I;
+    cbn [run get_slice Nat.eqb bind ts_ty ts_s s_bits s_refs app nth eval]; rewrite Hty; reflexivity.
+Qed.
+
+Lemma run_type_exotic T L ty bits refs fuel :
+  slookup spec_table T [] = Some L -> ty <> ty_ordinary -> 4 <= fuel ->
+  match t_special L with
+  | SpNo => True
+  | SpNone => run_type impl_table fuel T [] (Cell ty bits refs) = Ok (PNone, mkS bits refs)
+  | SpCell => run_type impl_table fuel T [] (Cell ty bits refs) = Ok (PCell (Cell ty bits refs), mkS bits refs)
+  end.
+Proof.
+  intros Hl Hty Hfuel. pose proof (compile_exotic impl_table L ty bits refs fuel Hty Hfuel) as H.
+  unfold run_type. rewrite (impl_agree _ _ _ Hl). cbn [cell_slice].
+  destruct (t_special L); [exact I| |]; rewrite H; reflexivity.
 Qed.
